@@ -1,4 +1,2125 @@
-import TensorModel.Run
+import TensorModel.Proofs.Views
+import TensorModel.Proofs.Iter
 /-! Helper lemmas about the kernel and engine-glue model (C06, C07, C11, C12). -/
+set_option linter.unusedSimpArgs false
 namespace TM
+
+/-! ### cell-level view of the heap -/
+
+/-- cell `k` of buffer `b` of the heap (`none` = no such buffer / buffer too short) -/
+def cell (st : St) (b k : Nat) : Option Val := (st.heap[b]?).bind (·[k]?)
+
+/-- content of a cell, `Val.zero` when the cell does not exist -/
+def cellD (st : St) (b k : Nat) : Val := (cell st b k).getD Val.zero
+
+theorem cell_some_cellD {st : St} {b k : Nat} (h : (cell st b k).isSome = true) :
+    cell st b k = some (cellD st b k) := by
+  unfold cellD
+  cases hc : cell st b k with
+  | none => simp [hc] at h
+  | some v => rfl
+
+theorem cellD_of_some {st : St} {b k : Nat} {v : Val} (h : cell st b k = some v) : cellD st b k = v := by
+  simp [cellD, h]
+
+theorem cell_isSome_of_heap {st : St} {b k : Nat} {ba : Array Val} (hb : st.heap[b]? = some ba)
+    (hk : k < ba.size) : (cell st b k).isSome = true := by
+  simp [cell, hb, hk]
+
+/-- a window `[off, off+n)` of buffer `b` lies inside the buffer -/
+def InBuf (st : St) (b off n : Nat) : Prop := ∃ ba, st.heap[b]? = some ba ∧ off + n ≤ ba.size
+
+theorem InBuf.cell {st : St} {b off n : Nat} (h : InBuf st b off n) (i : Nat) (hi : i < n) :
+    (cell st b (off + i)).isSome = true := by
+  obtain ⟨ba, hb, hle⟩ := h
+  exact cell_isSome_of_heap hb (by omega)
+
+theorem InBuf.lt {st : St} {b off n : Nat} (h : InBuf st b off n) : b < st.heap.size := by
+  obtain ⟨ba, hb, _⟩ := h
+  exact (Array.getElem?_eq_some_iff.mp hb).1
+
+theorem St.rd_of_cell {s : St} {w : Win} {n : Nat} {i : Int} {v : Val} (h0 : 0 ≤ i) (h1 : i < n)
+    (hc : cell s w.buf (w.off + i.toNat) = some v) : s.rd w n i = .ok v := by
+  unfold St.rd
+  have hr : (decide (i < 0) || decide (i ≥ (n : Int))) = false := by
+    simp only [Bool.or_eq_false_iff, decide_eq_false_iff_not]; omega
+  simp only [hr]
+  unfold cell at hc
+  cases hb : s.heap[w.buf]? with
+  | none => simp [hb] at hc
+  | some bb =>
+    simp only [hb, Option.bind_some] at hc
+    simp [hc]
+
+theorem St.rd_ok {s : St} {w : Win} {n : Nat} {i : Int} {v : Val} (h : s.rd w n i = .ok v) :
+    0 ≤ i ∧ i < n ∧ cell s w.buf (w.off + i.toNat) = some v := by
+  unfold St.rd at h
+  by_cases hr : (decide (i < 0) || decide (i ≥ (n : Int))) = true
+  · simp only [hr, if_true] at h; cases h
+  · simp only [hr] at h
+    simp only [Bool.or_eq_true, decide_eq_true_eq, not_or] at hr
+    refine ⟨by omega, by omega, ?_⟩
+    unfold cell
+    cases hb : s.heap[w.buf]? with
+    | none => simp only [hb] at h; cases h
+    | some bb =>
+      simp only [hb] at h
+      cases hk : bb[w.off + i.toNat]? with
+      | none => simp only [hk] at h; cases h
+      | some x =>
+        simp only [hk] at h
+        injection h with h; subst h
+        simp [hk]
+
+/-- a successful `St.wr` replaces exactly one cell -/
+theorem St.wr_ok {s : St} {w : Win} {n : Nat} {i : Int} {v : Val} (h0 : 0 ≤ i) (h1 : i < n)
+    (hc : (cell s w.buf (w.off + i.toNat)).isSome = true) :
+    ∃ s', s.wr w n i v = .ok s' ∧ s'.mheap = s.mheap ∧ s'.heap.size = s.heap.size ∧
+      ∀ b k, cell s' b k = if b = w.buf ∧ k = w.off + i.toNat then some v else cell s b k := by
+  unfold cell at hc
+  cases hb : s.heap[w.buf]? with
+  | none => simp [hb] at hc
+  | some bb =>
+    simp only [hb, Option.bind_some] at hc
+    have hk : w.off + i.toNat < bb.size := by
+      cases hx : bb[w.off + i.toNat]? with
+      | none => simp [hx] at hc
+      | some x => exact (Array.getElem?_eq_some_iff.mp hx).1
+    obtain ⟨hbuf, hbb⟩ := Array.getElem?_eq_some_iff.mp hb
+    have hr : (decide (i < 0) || decide (i ≥ (n : Int))) = false := by
+      simp only [Bool.or_eq_false_iff, decide_eq_false_iff_not]; omega
+    refine ⟨{ s with heap := s.heap.set! w.buf (bb.set! (w.off + i.toNat) v) }, ?_, rfl, by simp, ?_⟩
+    · unfold St.wr
+      simp only [hr, hb, hk, if_true]
+      rfl
+    · intro b k
+      unfold cell
+      by_cases hbe : b = w.buf
+      · subst hbe
+        by_cases hke : k = w.off + i.toNat
+        · subst hke
+          simp [hbuf, hk]
+        · have : w.off + i.toNat ≠ k := fun h => hke h.symm
+          simp [hbuf, hbb, hke, this]
+      · have : w.buf ≠ b := fun h => hbe h.symm
+        simp [hbe, this]
+
+/-! ### the generic write loop -/
+
+/-- `s` agrees with `st` outside buffer `d`, and at cell `k0` of buffer `d` -/
+def AgreeAt (s st : St) (d k0 : Nat) : Prop := ∀ b k, (b ≠ d ∨ k = k0) → cell s b k = cell st b k
+
+theorem AgreeAt.refl (st : St) (d k0 : Nat) : AgreeAt st st d k0 := fun _ _ _ => rfl
+
+/-- A loop whose step `x` writes `v x` to cell `pos x` of the window `d` (or does nothing when
+    `act x = false`), provided the step only looks at cells outside `d`'s buffer and at its own
+    cell, and distinct active steps write distinct cells. -/
+theorem wrLoop {α : Type} (d : Win) (n : Nat) (pos : α → Int) (act : α → Bool) (v : α → Val)
+    (step : St → α → Res St) :
+    ∀ (l : List α) (st : St),
+    (∀ x ∈ l, act x = true → 0 ≤ pos x ∧ pos x < n ∧ (cell st d.buf (d.off + (pos x).toNat)).isSome = true) →
+    l.Pairwise (fun x y => act x = true → act y = true → pos x ≠ pos y) →
+    (∀ s x, x ∈ l → act x = true → AgreeAt s st d.buf (d.off + (pos x).toNat) →
+       step s x = s.wr d n (pos x) (v x)) →
+    (∀ s x, x ∈ l → act x = false → step s x = .ok s) →
+    ∃ st', l.foldlM step st = .ok st' ∧ st'.mheap = st.mheap ∧ st'.heap.size = st.heap.size ∧
+      (∀ x ∈ l, act x = true → cell st' d.buf (d.off + (pos x).toNat) = some (v x)) ∧
+      (∀ b k, (b ≠ d.buf ∨ ∀ x ∈ l, act x = true → k ≠ d.off + (pos x).toNat) →
+        cell st' b k = cell st b k) := by
+  intro l
+  induction l with
+  | nil =>
+    intro st _ _ _ _
+    exact ⟨st, rfl, rfl, rfl, by simp, fun _ _ _ => rfl⟩
+  | cons x xs ih =>
+    intro st hpos hnd hact hskip
+    rw [List.pairwise_cons] at hnd
+    obtain ⟨hx, hnd⟩ := hnd
+    by_cases hax : act x = true
+    · obtain ⟨h0, h1, hc⟩ := hpos x (by simp) hax
+      obtain ⟨s1, hw, hm1, hs1, hc1⟩ := St.wr_ok (v := v x) h0 h1 hc
+      have hst : step st x = .ok s1 := by
+        rw [hact st x (by simp) hax (AgreeAt.refl _ _ _)]; exact hw
+      have hpos' : ∀ y ∈ xs, act y = true →
+          0 ≤ pos y ∧ pos y < n ∧ (cell s1 d.buf (d.off + (pos y).toNat)).isSome = true := by
+        intro y hy hay
+        obtain ⟨a0, a1, ac⟩ := hpos y (List.mem_cons_of_mem _ hy) hay
+        refine ⟨a0, a1, ?_⟩
+        rw [hc1]
+        split
+        · rfl
+        · exact ac
+      have hact' : ∀ s y, y ∈ xs → act y = true → AgreeAt s s1 d.buf (d.off + (pos y).toNat) →
+          step s y = s.wr d n (pos y) (v y) := by
+        intro s y hy hay hag
+        apply hact s y (List.mem_cons_of_mem _ hy) hay
+        intro b k hbk
+        rw [hag b k hbk, hc1]
+        have hne := hx y hy hax hay
+        have a0 := (hpos y (List.mem_cons_of_mem _ hy) hay).1
+        split
+        · rename_i hh
+          rcases hbk with hb | hk
+          · exact absurd hh.1 hb
+          · exfalso; omega
+        · rfl
+      obtain ⟨st', hf, hm, hs, hv, hfr⟩ := ih s1 hpos' hnd hact'
+        (fun s y hy => hskip s y (List.mem_cons_of_mem _ hy))
+      refine ⟨st', ?_, hm.trans hm1, hs.trans hs1, ?_, ?_⟩
+      · simp only [List.foldlM_cons, hst, bind, Except.bind]; exact hf
+      · intro y hy hay
+        rcases List.mem_cons.mp hy with rfl | hy
+        · rw [hfr _ _ (Or.inr ?_), hc1]
+          · simp
+          · intro z hz haz
+            have hne := hx z hz hax haz
+            have z0 := (hpos z (List.mem_cons_of_mem _ hz) haz).1
+            omega
+        · exact hv y hy hay
+      · intro b k hbk
+        rw [hfr b k ?_, hc1]
+        · split
+          · rename_i hh
+            rcases hbk with hb | hk
+            · exact absurd hh.1 hb
+            · exact absurd hh.2 (hk x (by simp) hax)
+          · rfl
+        · rcases hbk with hb | hk
+          · exact Or.inl hb
+          · exact Or.inr (fun z hz => hk z (List.mem_cons_of_mem _ hz))
+    · have hax' : act x = false := by simpa using hax
+      have hst : step st x = .ok st := hskip st x (by simp) hax'
+      obtain ⟨st', hf, hm, hs, hv, hfr⟩ := ih st
+        (fun y hy => hpos y (List.mem_cons_of_mem _ hy)) hnd
+        (fun s y hy => hact s y (List.mem_cons_of_mem _ hy))
+        (fun s y hy => hskip s y (List.mem_cons_of_mem _ hy))
+      refine ⟨st', ?_, hm, hs, ?_, ?_⟩
+      · simp only [List.foldlM_cons, hst, bind, Except.bind]; exact hf
+      · intro y hy hay
+        rcases List.mem_cons.mp hy with rfl | hy
+        · exact absurd hay hax
+        · exact hv y hy hay
+      · intro b k hbk
+        apply hfr b k
+        rcases hbk with hb | hk
+        · exact Or.inl hb
+        · exact Or.inr (fun z hz => hk z (List.mem_cons_of_mem _ hz))
+
+/-! ### raw (contiguous) kernels -/
+
+/-- cells `off … off+n-1` of buffer `b` exist -/
+def Has (st : St) (b off n : Nat) : Prop := ∀ i, i < n → (cell st b (off + i)).isSome = true
+
+theorem InBuf.has {st : St} {b off n : Nat} (h : InBuf st b off n) : Has st b off n :=
+  fun i hi => h.cell i hi
+
+theorem Has.mono {st : St} {b off n m : Nat} (h : Has st b off n) (hm : m ≤ n) : Has st b off m :=
+  fun i hi => h i (by omega)
+
+/-- `st'` is `st` with cells `off+i`, `i<n`, of buffer `d` replaced by `v i`; nothing else changed -/
+structure Writes (st st' : St) (d off n : Nat) (v : Nat → Val) : Prop where
+  mheap : st'.mheap = st.mheap
+  size : st'.heap.size = st.heap.size
+  val : ∀ i, i < n → cell st' d (off + i) = some (v i)
+  frame : ∀ b k, (b ≠ d ∨ k < off ∨ off + n ≤ k) → cell st' b k = cell st b k
+
+theorem Writes.other {st st' : St} {d off n : Nat} {v : Nat → Val} (h : Writes st st' d off n v)
+    {b : Nat} (hb : b ≠ d) (k : Nat) : cell st' b k = cell st b k := h.frame b k (Or.inl hb)
+
+theorem Writes.cellD_other {st st' : St} {d off n : Nat} {v : Nat → Val} (h : Writes st st' d off n v)
+    {b : Nat} (hb : b ≠ d) (k : Nat) : cellD st' b k = cellD st b k := by
+  unfold cellD; rw [h.other hb]
+
+theorem Writes.has {st st' : St} {d off n : Nat} {v : Nat → Val} (h : Writes st st' d off n v)
+    {b o m : Nat} (hh : Has st b o m) : Has st' b o m := by
+  intro i hi
+  by_cases hb : b = d
+  · subst hb
+    by_cases hk : off ≤ o + i ∧ o + i < off + n
+    · have := h.val (o + i - off) (by omega)
+      rw [show off + (o + i - off) = o + i by omega] at this
+      rw [this]; rfl
+    · rw [h.frame b (o + i) (Or.inr (by omega))]; exact hh i hi
+  · rw [h.other hb]; exact hh i hi
+
+theorem rangeI_pairwise (n : Nat) : (rangeI n).Pairwise (fun x y => x ≠ y) := by
+  unfold rangeI
+  rw [List.pairwise_map]
+  exact (List.nodup_range (n := n)).imp (fun {a b} h hab => h (Int.ofNat.inj hab))
+
+theorem mem_rangeI {n : Nat} {x : Int} : x ∈ rangeI n ↔ ∃ k, k < n ∧ x = (k : Int) := by
+  unfold rangeI
+  simp only [List.mem_map, List.mem_range]
+  constructor
+  · rintro ⟨k, hk, rfl⟩; exact ⟨k, hk, rfl⟩
+  · rintro ⟨k, hk, rfl⟩; exact ⟨k, hk, rfl⟩
+
+/-- the write loop over `0 … n-1` of a window -/
+theorem wrRange (d : Win) (n : Nat) (v : Nat → Val) (step : St → Int → Res St) (st : St)
+    (hd : Has st d.buf d.off n)
+    (hstep : ∀ s (i : Nat), i < n → AgreeAt s st d.buf (d.off + i) → step s (i : Int) = s.wr d n (i : Int) (v i)) :
+    ∃ st', (rangeI n).foldlM step st = .ok st' ∧ Writes st st' d.buf d.off n v := by
+  obtain ⟨st', hf, hm, hs, hv, hfr⟩ := wrLoop d n (fun x => x) (fun _ => true) (fun x => v x.toNat) step
+    (rangeI n) st
+    (by
+      intro x hx _
+      obtain ⟨k, hk, rfl⟩ := mem_rangeI.mp hx
+      refine ⟨by omega, by omega, ?_⟩
+      simpa using hd k hk)
+    ((rangeI_pairwise n).imp (fun h _ _ => h))
+    (by
+      intro s x hx _ hag
+      obtain ⟨k, hk, rfl⟩ := mem_rangeI.mp hx
+      simp only [Int.toNat_natCast] at hag ⊢
+      exact hstep s k hk hag)
+    (by intro s x _ h; cases h)
+  refine ⟨st', hf, hm, hs, ?_, ?_⟩
+  · intro i hi
+    have := hv (i : Int) (mem_rangeI.mpr ⟨i, hi, rfl⟩) rfl
+    simpa using this
+  · intro b k hbk
+    apply hfr
+    rcases hbk with hb | hk
+    · exact Or.inl hb
+    · refine Or.inr ?_
+      intro x hx _
+      obtain ⟨j, hj, rfl⟩ := mem_rangeI.mp hx
+      simp only [Int.toNat_natCast]
+      omega
+
+theorem rd_agree_other {s st : St} {d k0 : Nat} (hag : AgreeAt s st d k0) (w : Win) (n : Nat) (i : Int)
+    (h0 : 0 ≤ i) (h1 : i < n) (hne : w.buf ≠ d) (hc : (cell st w.buf (w.off + i.toNat)).isSome = true) :
+    s.rd w n i = .ok (cellD st w.buf (w.off + i.toNat)) :=
+  St.rd_of_cell h0 h1 ((hag _ _ (Or.inl hne)).trans (cell_some_cellD hc))
+
+theorem rd_agree_self {s st : St} {d : Win} {i : Int} (hag : AgreeAt s st d.buf (d.off + i.toNat)) (n : Nat)
+    (h0 : 0 ≤ i) (h1 : i < n) (hc : (cell st d.buf (d.off + i.toNat)).isSome = true) :
+    s.rd d n i = .ok (cellD st d.buf (d.off + i.toNat)) :=
+  St.rd_of_cell h0 h1 ((hag _ _ (Or.inr rfl)).trans (cell_some_cellD hc))
+
+theorem rdN_other {s st : St} {d k0 : Nat} (hag : AgreeAt s st d k0) (w : Win) (n : Nat) (i : Nat)
+    (h1 : i < n) (hne : w.buf ≠ d) (hc : (cell st w.buf (w.off + i)).isSome = true) :
+    s.rd w n (i : Int) = .ok (cellD st w.buf (w.off + i)) := by
+  have := rd_agree_other hag w n (i : Int) (by omega) (by omega) hne (by simpa using hc)
+  simpa using this
+
+theorem rdN_self {s st : St} {d : Win} {i : Nat} (hag : AgreeAt s st d.buf (d.off + i)) (n : Nat)
+    (h1 : i < n) (hc : (cell st d.buf (d.off + i)).isSome = true) :
+    s.rd d n (i : Int) = .ok (cellD st d.buf (d.off + i)) := by
+  have := rd_agree_self (d := d) (i := (i : Int)) (by simpa using hag) n (by omega) (by omega) (by simpa using hc)
+  simpa using this
+
+theorem kVV_spec (st : St) (a b : Win) (f : BinF) (hne : a.buf ≠ b.buf) (hcap : a.len ≤ b.cap)
+    (ha : Has st a.buf a.off a.len) (hb : Has st b.buf b.off a.len) :
+    ∃ st', kVV st a b f = .ok st' ∧
+      Writes st st' a.buf a.off a.len (fun i => f (cellD st a.buf (a.off + i)) (cellD st b.buf (b.off + i))) := by
+  unfold kVV reslice
+  simp only [hcap, if_true, bind, Except.bind]
+  apply wrRange a a.len _ _ st ha
+  intro s i hi hag
+  rw [rdN_self hag a.len hi (ha i hi), rdN_other hag b a.len i hi hne.symm (hb i hi)]
+
+theorem kSV_spec (st : St) (a0 : Val) (b : Win) (f : BinF) (hb : Has st b.buf b.off b.len) :
+    ∃ st', kSV st a0 b f = .ok st' ∧
+      Writes st st' b.buf b.off b.len (fun i => f a0 (cellD st b.buf (b.off + i))) := by
+  unfold kSV
+  apply wrRange b b.len _ _ st hb
+  intro s i hi hag
+  simp only [bind, Except.bind]
+  rw [rdN_self hag b.len hi (hb i hi)]
+
+theorem kVS_spec (st : St) (a : Win) (b0 : Val) (f : BinF) (ha : Has st a.buf a.off a.len) :
+    ∃ st', kVS st a b0 f = .ok st' ∧
+      Writes st st' a.buf a.off a.len (fun i => f (cellD st a.buf (a.off + i)) b0) := by
+  unfold kVS
+  apply wrRange a a.len _ _ st ha
+  intro s i hi hag
+  simp only [bind, Except.bind]
+  rw [rdN_self hag a.len hi (ha i hi)]
+
+theorem kUn_spec (st : St) (a : Win) (g : UnF) (ha : Has st a.buf a.off a.len) :
+    ∃ st', kUn st a g = .ok st' ∧
+      Writes st st' a.buf a.off a.len (fun i => g (cellD st a.buf (a.off + i))) := by
+  unfold kUn
+  apply wrRange a a.len _ _ st ha
+  intro s i hi hag
+  simp only [bind, Except.bind]
+  rw [rdN_self hag a.len hi (ha i hi)]
+
+theorem kIncrVV_spec (st : St) (a b incr : Win) (f acc : BinF) (hna : a.buf ≠ incr.buf) (hnb : b.buf ≠ incr.buf)
+    (hcb : a.len ≤ b.cap) (hci : a.len ≤ incr.cap)
+    (ha : Has st a.buf a.off a.len) (hb : Has st b.buf b.off a.len) (hi : Has st incr.buf incr.off a.len) :
+    ∃ st', kIncrVV st a b incr f acc = .ok st' ∧
+      Writes st st' incr.buf incr.off a.len (fun i =>
+        acc (cellD st incr.buf (incr.off + i)) (f (cellD st a.buf (a.off + i)) (cellD st b.buf (b.off + i)))) := by
+  unfold kIncrVV reslice
+  simp only [hcb, hci, if_true, bind, Except.bind]
+  apply wrRange incr a.len _ _ st hi
+  intro s i hlt hag
+  rw [rdN_self hag a.len hlt (hi i hlt), rdN_other hag a a.len i hlt hna (ha i hlt),
+    rdN_other hag b a.len i hlt hnb (hb i hlt)]
+
+theorem kIncrSV_spec (st : St) (a0 : Val) (b incr : Win) (f acc : BinF) (hnb : b.buf ≠ incr.buf)
+    (hlen : incr.len ≤ b.len)
+    (hb : Has st b.buf b.off incr.len) (hi : Has st incr.buf incr.off incr.len) :
+    ∃ st', kIncrSV st a0 b incr f acc = .ok st' ∧
+      Writes st st' incr.buf incr.off incr.len (fun i =>
+        acc (cellD st incr.buf (incr.off + i)) (f a0 (cellD st b.buf (b.off + i)))) := by
+  unfold kIncrSV
+  apply wrRange incr incr.len _ _ st hi
+  intro s i hlt hag
+  simp only [bind, Except.bind]
+  rw [rdN_self hag incr.len hlt (hi i hlt), rdN_other hag b b.len i (by omega) hnb (hb i hlt)]
+
+theorem kIncrVS_spec (st : St) (a : Win) (b0 : Val) (incr : Win) (f acc : BinF) (hna : a.buf ≠ incr.buf)
+    (hlen : incr.len ≤ a.len)
+    (ha : Has st a.buf a.off incr.len) (hi : Has st incr.buf incr.off incr.len) :
+    ∃ st', kIncrVS st a b0 incr f acc = .ok st' ∧
+      Writes st st' incr.buf incr.off incr.len (fun i =>
+        acc (cellD st incr.buf (incr.off + i)) (f (cellD st a.buf (a.off + i)) b0)) := by
+  unfold kIncrVS
+  apply wrRange incr incr.len _ _ st hi
+  intro s i hlt hag
+  simp only [bind, Except.bind]
+  rw [rdN_self hag incr.len hlt (hi i hlt), rdN_other hag a a.len i (by omega) hna (ha i hlt)]
+
+theorem kRecvVV_spec (st : St) (a b recv : Win) (f : BinF) (hna : a.buf ≠ recv.buf) (hnb : b.buf ≠ recv.buf)
+    (hca : recv.len ≤ a.cap) (hcb : recv.len ≤ b.cap)
+    (ha : Has st a.buf a.off recv.len) (hb : Has st b.buf b.off recv.len) (hr : Has st recv.buf recv.off recv.len) :
+    ∃ st', kRecvVV st a b recv f = .ok st' ∧
+      Writes st st' recv.buf recv.off recv.len (fun i =>
+        f (cellD st a.buf (a.off + i)) (cellD st b.buf (b.off + i))) := by
+  unfold kRecvVV reslice
+  simp only [hca, hcb, if_true, bind, Except.bind]
+  apply wrRange recv recv.len _ _ st hr
+  intro s i hlt hag
+  rw [rdN_other hag a recv.len i hlt hna (ha i hlt), rdN_other hag b recv.len i hlt hnb (hb i hlt)]
+
+theorem kRecvSV_spec (st : St) (a0 : Val) (b recv : Win) (f : BinF) (hnb : b.buf ≠ recv.buf)
+    (hlen : recv.len ≤ b.len)
+    (hb : Has st b.buf b.off recv.len) (hr : Has st recv.buf recv.off recv.len) :
+    ∃ st', kRecvSV st a0 b recv f = .ok st' ∧
+      Writes st st' recv.buf recv.off recv.len (fun i => f a0 (cellD st b.buf (b.off + i))) := by
+  unfold kRecvSV
+  apply wrRange recv recv.len _ _ st hr
+  intro s i hlt hag
+  simp only [bind, Except.bind]
+  rw [rdN_other hag b b.len i (by omega) hnb (hb i hlt)]
+
+theorem kRecvVS_spec (st : St) (a : Win) (b0 : Val) (recv : Win) (f : BinF) (hna : a.buf ≠ recv.buf)
+    (hlen : recv.len ≤ a.len)
+    (ha : Has st a.buf a.off recv.len) (hr : Has st recv.buf recv.off recv.len) :
+    ∃ st', kRecvVS st a b0 recv f = .ok st' ∧
+      Writes st st' recv.buf recv.off recv.len (fun i => f (cellD st a.buf (a.off + i)) b0) := by
+  unfold kRecvVS
+  apply wrRange recv recv.len _ _ st hr
+  intro s i hlt hag
+  simp only [bind, Except.bind]
+  rw [rdN_other hag a a.len i (by omega) hna (ha i hlt)]
+
+/-- the vector-vector loop of `E.Cmp` (`GtT(a, b, retVal)`) -/
+def kCmpVV (s : St) (a b r : Win) (f : BinF) : Res St := do
+  reslice b a.len; reslice r a.len
+  (rangeI a.len).foldlM (fun s i => do s.wr r a.len i (f (← s.rd a a.len i) (← s.rd b a.len i))) s
+
+theorem kCmpVV_spec (st : St) (a b r : Win) (f : BinF) (hna : a.buf ≠ r.buf) (hnb : b.buf ≠ r.buf)
+    (hcb : a.len ≤ b.cap) (hcr : a.len ≤ r.cap)
+    (ha : Has st a.buf a.off a.len) (hb : Has st b.buf b.off a.len) (hr : Has st r.buf r.off a.len) :
+    ∃ st', kCmpVV st a b r f = .ok st' ∧
+      Writes st st' r.buf r.off a.len (fun i => f (cellD st a.buf (a.off + i)) (cellD st b.buf (b.off + i))) := by
+  unfold kCmpVV reslice
+  simp only [hcb, hcr, if_true, bind, Except.bind]
+  apply wrRange r a.len _ _ st hr
+  intro s i hlt hag
+  rw [rdN_other hag a a.len i hlt hna (ha i hlt), rdN_other hag b a.len i hlt hnb (hb i hlt)]
+
+/-! ### iterator kernels -/
+
+/-- every offset of the stream indexes the window `[0, n)` -/
+def InRange (l : ItS) (n : Nat) : Prop := ∀ p ∈ l, 0 ≤ p.1 ∧ p.1 < (n : Int)
+
+theorem mem_zip_iff {α β : Type} {l₁ : List α} {l₂ : List β} {x : α × β} :
+    x ∈ l₁.zip l₂ ↔ ∃ k : Nat, l₁[k]? = some x.1 ∧ l₂[k]? = some x.2 := by
+  rw [List.mem_iff_getElem?]
+  constructor
+  · rintro ⟨k, hk⟩; exact ⟨k, List.getElem?_zip_eq_some.mp hk⟩
+  · rintro ⟨k, hk⟩; exact ⟨k, List.getElem?_zip_eq_some.mpr hk⟩
+
+theorem pairwise_zip_fst {α β : Type} {R : α → α → Prop} :
+    ∀ (l₁ : List α) (l₂ : List β), l₁.Pairwise R → (l₁.zip l₂).Pairwise (fun x y => R x.1 y.1) := by
+  intro l₁
+  induction l₁ with
+  | nil => intro l₂ _; simp
+  | cons a as ih =>
+    intro l₂ h
+    cases l₂ with
+    | nil => simp
+    | cons b bs =>
+      rw [List.pairwise_cons] at h
+      simp only [List.zip_cons_cons, List.pairwise_cons]
+      exact ⟨fun y hy => h.1 y.1 (List.of_mem_zip hy).1, ih bs h.2⟩
+
+theorem pairwise_zip_snd {α β : Type} {R : β → β → Prop} :
+    ∀ (l₁ : List α) (l₂ : List β), l₂.Pairwise R → (l₁.zip l₂).Pairwise (fun x y => R x.2 y.2) := by
+  intro l₁
+  induction l₁ with
+  | nil => intro l₂ _; simp
+  | cons a as ih =>
+    intro l₂ h
+    cases l₂ with
+    | nil => simp
+    | cons b bs =>
+      rw [List.pairwise_cons] at h
+      simp only [List.zip_cons_cons, List.pairwise_cons]
+      exact ⟨fun y hy => h.1 y.2 (List.of_mem_zip hy).2, ih bs h.2⟩
+
+theorem nodup_fst_pairwise {l : ItS} (h : (l.map (·.1)).Nodup) : l.Pairwise (fun p q => p.1 ≠ q.1) := by
+  unfold List.Nodup at h
+  rwa [List.pairwise_map] at h
+
+/-- one step of the two-iterator kernel -/
+def stepIterVV (a b : Win) (f : BinF) (s : St) (x : (Int × Bool) × (Int × Bool)) : Res St :=
+  if x.1.2 && x.2.2 then do s.wr a a.len x.1.1 (f (← s.rd a a.len x.1.1) (← s.rd b b.len x.2.1)) else pure s
+
+theorem kIterVV_fold (a b : Win) (f : BinF) : ∀ (ia ib : ItS) (s : St),
+    kIterVV s a b f ia ib = (ia.zip ib).foldlM (stepIterVV a b f) s := by
+  intro ia
+  induction ia with
+  | nil => intro ib s; simp [kIterVV]; rfl
+  | cons p ia ih =>
+    intro ib s
+    cases ib with
+    | nil => simp [kIterVV]; rfl
+    | cons q ib =>
+      obtain ⟨i, vi⟩ := p
+      obtain ⟨j, vj⟩ := q
+      simp only [kIterVV, List.zip_cons_cons, List.foldlM_cons, ih]
+      rfl
+
+def stepIterSV (a0 : Val) (b : Win) (f : BinF) (s : St) (x : Int × Bool) : Res St :=
+  if x.2 then do s.wr b b.len x.1 (f a0 (← s.rd b b.len x.1)) else pure s
+
+theorem kIterSV_fold (a0 : Val) (b : Win) (f : BinF) : ∀ (ib : ItS) (s : St),
+    kIterSV s a0 b f ib = ib.foldlM (stepIterSV a0 b f) s := by
+  intro ib
+  induction ib with
+  | nil => intro s; simp [kIterSV]; rfl
+  | cons p ib ih =>
+    intro s
+    obtain ⟨i, vi⟩ := p
+    simp only [kIterSV, List.foldlM_cons, ih]
+    rfl
+
+def stepIterVS (a : Win) (b0 : Val) (f : BinF) (s : St) (x : Int × Bool) : Res St :=
+  if x.2 then do s.wr a a.len x.1 (f (← s.rd a a.len x.1) b0) else pure s
+
+theorem kIterVS_fold (a : Win) (b0 : Val) (f : BinF) : ∀ (ia : ItS) (s : St),
+    kIterVS s a b0 f ia = ia.foldlM (stepIterVS a b0 f) s := by
+  intro ia
+  induction ia with
+  | nil => intro s; simp [kIterVS]; rfl
+  | cons p ia ih =>
+    intro s
+    obtain ⟨i, vi⟩ := p
+    simp only [kIterVS, List.foldlM_cons, ih]
+    rfl
+
+def stepUnIter (a : Win) (g : UnF) (s : St) (x : Int × Bool) : Res St :=
+  if x.2 then do s.wr a a.len x.1 (g (← s.rd a a.len x.1)) else pure s
+
+theorem kUnIter_fold (a : Win) (g : UnF) : ∀ (ia : ItS) (s : St),
+    kUnIter s a g ia = ia.foldlM (stepUnIter a g) s := by
+  intro ia
+  induction ia with
+  | nil => intro s; simp [kUnIter]; rfl
+  | cons p ia ih =>
+    intro s
+    obtain ⟨i, vi⟩ := p
+    simp only [kUnIter, List.foldlM_cons, ih]
+    rfl
+
+theorem Has.at {st : St} {b off n : Nat} (h : Has st b off n) {i : Int} (h0 : 0 ≤ i) (h1 : i < (n : Int)) :
+    (cell st b (off + i.toNat)).isSome = true := h i.toNat (by omega)
+
+/-- two offsets of a duplicate-free stream at different positions differ -/
+theorem nodup_fst_ne {l : ItS} (h : (l.map (·.1)).Nodup) {k k' : Nat} {p q : Int × Bool}
+    (hk : l[k]? = some p) (hk' : l[k']? = some q) (hne : k ≠ k') : p.1 ≠ q.1 := by
+  have hp := nodup_fst_pairwise h
+  rw [List.pairwise_iff_getElem] at hp
+  obtain ⟨h1, e1⟩ := List.getElem?_eq_some_iff.mp hk
+  obtain ⟨h2, e2⟩ := List.getElem?_eq_some_iff.mp hk'
+  subst e1 e2
+  rcases Nat.lt_or_gt_of_ne hne with hlt | hlt
+  · exact hp k k' h1 h2 hlt
+  · exact fun e => hp k' k h2 h1 hlt e.symm
+
+theorem kIterVV_spec (st : St) (a b : Win) (f : BinF) (ia ib : ItS) (hne : a.buf ≠ b.buf)
+    (hra : InRange ia a.len) (hrb : InRange ib b.len) (hnd : (ia.map (·.1)).Nodup)
+    (ha : Has st a.buf a.off a.len) (hb : Has st b.buf b.off b.len) :
+    ∃ st', kIterVV st a b f ia ib = .ok st' ∧ st'.mheap = st.mheap ∧ st'.heap.size = st.heap.size ∧
+      (∀ (k : Nat) i vi j vj, ia[k]? = some (i, vi) → ib[k]? = some (j, vj) → vi = true → vj = true →
+        cell st' a.buf (a.off + i.toNat) =
+          some (f (cellD st a.buf (a.off + i.toNat)) (cellD st b.buf (b.off + j.toNat)))) ∧
+      (∀ b' k', (b' ≠ a.buf ∨ ∀ (k : Nat) i vi j vj, ia[k]? = some (i, vi) → ib[k]? = some (j, vj) →
+          vi = true → vj = true → k' ≠ a.off + i.toNat) → cell st' b' k' = cell st b' k') := by
+  rw [kIterVV_fold]
+  obtain ⟨st', hf, hm, hs, hv, hfr⟩ := wrLoop a a.len (fun x : (Int × Bool) × (Int × Bool) => x.1.1)
+    (fun x => x.1.2 && x.2.2)
+    (fun x => f (cellD st a.buf (a.off + x.1.1.toNat)) (cellD st b.buf (b.off + x.2.1.toNat)))
+    (stepIterVV a b f) (ia.zip ib) st
+    (by
+      intro x hx _
+      have := hra x.1 (List.of_mem_zip hx).1
+      exact ⟨this.1, this.2, ha.at this.1 this.2⟩)
+    ((pairwise_zip_fst ia ib (nodup_fst_pairwise hnd)).imp (fun h _ _ => h))
+    (by
+      intro s x hx hax hag
+      have h1 := hra x.1 (List.of_mem_zip hx).1
+      have h2 := hrb x.2 (List.of_mem_zip hx).2
+      unfold stepIterVV
+      simp only [hax, if_true, bind, Except.bind]
+      rw [rd_agree_self hag a.len h1.1 h1.2 (ha.at h1.1 h1.2),
+        rd_agree_other hag b b.len x.2.1 h2.1 h2.2 hne.symm (hb.at h2.1 h2.2)])
+    (by
+      intro s x _ hax
+      unfold stepIterVV
+      simp only [hax]
+      rfl)
+  refine ⟨st', hf, hm, hs, ?_, ?_⟩
+  · intro k i vi j vj h1 h2 hvi hvj
+    exact hv ((i, vi), (j, vj)) (mem_zip_iff.mpr ⟨k, h1, h2⟩) (by simp [hvi, hvj])
+  · intro b' k' hbk
+    apply hfr
+    rcases hbk with hb' | hk
+    · exact Or.inl hb'
+    · refine Or.inr ?_
+      intro x hx hax
+      obtain ⟨k, h1, h2⟩ := mem_zip_iff.mp hx
+      simp only [Bool.and_eq_true] at hax
+      exact hk k x.1.1 x.1.2 x.2.1 x.2.2 h1 h2 hax.1 hax.2
+
+/-- single-stream iterator loop: shared proof for `kIterSV`, `kIterVS`, `kUnIter` -/
+theorem iter1_spec (st : St) (d : Win) (w : Val → Val) (step : St → Int × Bool → Res St) (l : ItS)
+    (hstep : ∀ s x, step s x = if x.2 then do s.wr d d.len x.1 (w (← s.rd d d.len x.1)) else pure s)
+    (hr : InRange l d.len) (hnd : (l.map (·.1)).Nodup) (hd : Has st d.buf d.off d.len) :
+    ∃ st', l.foldlM step st = .ok st' ∧ st'.mheap = st.mheap ∧ st'.heap.size = st.heap.size ∧
+      (∀ i, (i, true) ∈ l → cell st' d.buf (d.off + i.toNat) = some (w (cellD st d.buf (d.off + i.toNat)))) ∧
+      (∀ b' k', (b' ≠ d.buf ∨ ∀ i, (i, true) ∈ l → k' ≠ d.off + i.toNat) → cell st' b' k' = cell st b' k') := by
+  obtain ⟨st', hf, hm, hs, hv, hfr⟩ := wrLoop d d.len (fun x : Int × Bool => x.1) (fun x => x.2)
+    (fun x => w (cellD st d.buf (d.off + x.1.toNat))) step l st
+    (by
+      intro x hx _
+      have := hr x hx
+      exact ⟨this.1, this.2, hd.at this.1 this.2⟩)
+    ((nodup_fst_pairwise hnd).imp (fun h _ _ => h))
+    (by
+      intro s x hx hax hag
+      have h1 := hr x hx
+      rw [hstep]
+      simp only [hax, if_true, bind, Except.bind]
+      rw [rd_agree_self hag d.len h1.1 h1.2 (hd.at h1.1 h1.2)])
+    (by
+      intro s x _ hax
+      rw [hstep]
+      simp only [hax]
+      rfl)
+  refine ⟨st', hf, hm, hs, ?_, ?_⟩
+  · intro i hi
+    exact hv (i, true) hi rfl
+  · intro b' k' hbk
+    apply hfr
+    rcases hbk with hb' | hk
+    · exact Or.inl hb'
+    · refine Or.inr ?_
+      intro x hx hax
+      obtain ⟨i, vi⟩ := x
+      simp only at hax
+      subst hax
+      exact hk i hx
+
+theorem kIterSV_spec (st : St) (a0 : Val) (b : Win) (f : BinF) (ib : ItS)
+    (hr : InRange ib b.len) (hnd : (ib.map (·.1)).Nodup) (hb : Has st b.buf b.off b.len) :
+    ∃ st', kIterSV st a0 b f ib = .ok st' ∧ st'.mheap = st.mheap ∧ st'.heap.size = st.heap.size ∧
+      (∀ i, (i, true) ∈ ib → cell st' b.buf (b.off + i.toNat) = some (f a0 (cellD st b.buf (b.off + i.toNat)))) ∧
+      (∀ b' k', (b' ≠ b.buf ∨ ∀ i, (i, true) ∈ ib → k' ≠ b.off + i.toNat) → cell st' b' k' = cell st b' k') := by
+  rw [kIterSV_fold]
+  exact iter1_spec st b (fun y => f a0 y) _ ib (fun _ _ => rfl) hr hnd hb
+
+theorem kIterVS_spec (st : St) (a : Win) (b0 : Val) (f : BinF) (ia : ItS)
+    (hr : InRange ia a.len) (hnd : (ia.map (·.1)).Nodup) (ha : Has st a.buf a.off a.len) :
+    ∃ st', kIterVS st a b0 f ia = .ok st' ∧ st'.mheap = st.mheap ∧ st'.heap.size = st.heap.size ∧
+      (∀ i, (i, true) ∈ ia → cell st' a.buf (a.off + i.toNat) = some (f (cellD st a.buf (a.off + i.toNat)) b0)) ∧
+      (∀ b' k', (b' ≠ a.buf ∨ ∀ i, (i, true) ∈ ia → k' ≠ a.off + i.toNat) → cell st' b' k' = cell st b' k') := by
+  rw [kIterVS_fold]
+  exact iter1_spec st a (fun x => f x b0) _ ia (fun _ _ => rfl) hr hnd ha
+
+theorem kUnIter_spec (st : St) (a : Win) (g : UnF) (ia : ItS)
+    (hr : InRange ia a.len) (hnd : (ia.map (·.1)).Nodup) (ha : Has st a.buf a.off a.len) :
+    ∃ st', kUnIter st a g ia = .ok st' ∧ st'.mheap = st.mheap ∧ st'.heap.size = st.heap.size ∧
+      (∀ i, (i, true) ∈ ia → cell st' a.buf (a.off + i.toNat) = some (g (cellD st a.buf (a.off + i.toNat)))) ∧
+      (∀ b' k', (b' ≠ a.buf ∨ ∀ i, (i, true) ∈ ia → k' ≠ a.off + i.toNat) → cell st' b' k' = cell st b' k') := by
+  rw [kUnIter_fold]
+  exact iter1_spec st a g _ ia (fun _ _ => rfl) hr hnd ha
+
+def stepIter3VV (a b d : Win) (f g : BinF) (s : St) (x : (Int × Bool) × (Int × Bool) × (Int × Bool)) : Res St :=
+  if x.1.2 && x.2.1.2 && x.2.2.2 then do
+    s.wr d d.len x.2.2.1 (g (← s.rd d d.len x.2.2.1) (f (← s.rd a a.len x.1.1) (← s.rd b b.len x.2.1.1)))
+  else pure s
+
+theorem kIter3VV_fold (a b d : Win) (f g : BinF) : ∀ (ia ib ik : ItS) (s : St),
+    kIter3VV s a b d f g ia ib ik = (ia.zip (ib.zip ik)).foldlM (stepIter3VV a b d f g) s := by
+  intro ia
+  induction ia with
+  | nil => intro ib ik s; simp [kIter3VV]; rfl
+  | cons p ia ih =>
+    intro ib ik s
+    cases ib with
+    | nil => simp [kIter3VV]; rfl
+    | cons q ib =>
+      cases ik with
+      | nil => simp [kIter3VV]; rfl
+      | cons r ik =>
+        obtain ⟨i, vi⟩ := p
+        obtain ⟨j, vj⟩ := q
+        obtain ⟨k, vk⟩ := r
+        simp only [kIter3VV, List.zip_cons_cons, List.foldlM_cons, ih]
+        rfl
+
+theorem mem_zip3_iff {α β γ : Type} {l₁ : List α} {l₂ : List β} {l₃ : List γ} {x : α × β × γ} :
+    x ∈ l₁.zip (l₂.zip l₃) ↔ ∃ k : Nat, l₁[k]? = some x.1 ∧ l₂[k]? = some x.2.1 ∧ l₃[k]? = some x.2.2 := by
+  rw [mem_zip_iff]
+  constructor
+  · rintro ⟨k, h1, h2⟩; exact ⟨k, h1, List.getElem?_zip_eq_some.mp h2⟩
+  · rintro ⟨k, h1, h2⟩; exact ⟨k, h1, List.getElem?_zip_eq_some.mpr h2⟩
+
+/-- three-iterator kernel: destination `d` in a buffer different from both operand buffers -/
+theorem kIter3VV_spec (st : St) (a b d : Win) (f g : BinF) (ia ib ik : ItS)
+    (hna : a.buf ≠ d.buf) (hnb : b.buf ≠ d.buf)
+    (hra : InRange ia a.len) (hrb : InRange ib b.len) (hrk : InRange ik d.len) (hnd : (ik.map (·.1)).Nodup)
+    (ha : Has st a.buf a.off a.len) (hb : Has st b.buf b.off b.len) (hd : Has st d.buf d.off d.len) :
+    ∃ st', kIter3VV st a b d f g ia ib ik = .ok st' ∧ st'.mheap = st.mheap ∧ st'.heap.size = st.heap.size ∧
+      (∀ (k : Nat) i vi j vj m vm, ia[k]? = some (i, vi) → ib[k]? = some (j, vj) → ik[k]? = some (m, vm) →
+        vi = true → vj = true → vm = true →
+        cell st' d.buf (d.off + m.toNat) =
+          some (g (cellD st d.buf (d.off + m.toNat))
+            (f (cellD st a.buf (a.off + i.toNat)) (cellD st b.buf (b.off + j.toNat))))) ∧
+      (∀ b' k', (b' ≠ d.buf ∨ ∀ (k : Nat) i vi j vj m vm, ia[k]? = some (i, vi) → ib[k]? = some (j, vj) →
+          ik[k]? = some (m, vm) → vi = true → vj = true → vm = true → k' ≠ d.off + m.toNat) →
+        cell st' b' k' = cell st b' k') := by
+  rw [kIter3VV_fold]
+  obtain ⟨st', hf, hm, hs, hv, hfr⟩ := wrLoop d d.len
+    (fun x : (Int × Bool) × (Int × Bool) × (Int × Bool) => x.2.2.1)
+    (fun x => x.1.2 && x.2.1.2 && x.2.2.2)
+    (fun x => g (cellD st d.buf (d.off + x.2.2.1.toNat))
+      (f (cellD st a.buf (a.off + x.1.1.toNat)) (cellD st b.buf (b.off + x.2.1.1.toNat))))
+    (stepIter3VV a b d f g) (ia.zip (ib.zip ik)) st
+    (by
+      intro x hx _
+      have := hrk x.2.2 (List.of_mem_zip (List.of_mem_zip hx).2).2
+      exact ⟨this.1, this.2, hd.at this.1 this.2⟩)
+    ((pairwise_zip_snd ia (ib.zip ik) (pairwise_zip_snd ib ik (nodup_fst_pairwise hnd))).imp (fun h _ _ => h))
+    (by
+      intro s x hx hax hag
+      have h1 := hra x.1 (List.of_mem_zip hx).1
+      have h2 := hrb x.2.1 (List.of_mem_zip (List.of_mem_zip hx).2).1
+      have h3 := hrk x.2.2 (List.of_mem_zip (List.of_mem_zip hx).2).2
+      unfold stepIter3VV
+      simp only [hax, if_true, bind, Except.bind]
+      rw [rd_agree_self hag d.len h3.1 h3.2 (hd.at h3.1 h3.2),
+        rd_agree_other hag a a.len x.1.1 h1.1 h1.2 hna (ha.at h1.1 h1.2),
+        rd_agree_other hag b b.len x.2.1.1 h2.1 h2.2 hnb (hb.at h2.1 h2.2)])
+    (by
+      intro s x _ hax
+      unfold stepIter3VV
+      simp only [hax]
+      rfl)
+  refine ⟨st', hf, hm, hs, ?_, ?_⟩
+  · intro k i vi j vj m vm h1 h2 h3 hvi hvj hvm
+    exact hv ((i, vi), (j, vj), (m, vm)) (mem_zip3_iff.mpr ⟨k, h1, h2, h3⟩) (by simp [hvi, hvj, hvm])
+  · intro b' k' hbk
+    apply hfr
+    rcases hbk with hb' | hk
+    · exact Or.inl hb'
+    · refine Or.inr ?_
+      intro x hx hax
+      obtain ⟨k, h1, h2, h3⟩ := mem_zip3_iff.mp hx
+      simp only [Bool.and_eq_true] at hax
+      exact hk k x.1.1 x.1.2 x.2.1.1 x.2.1.2 x.2.2.1 x.2.2.2 h1 h2 h3 hax.1.1 hax.1.2 hax.2
+
+/-! ### dispatchers -/
+
+theorem rd0_of_cell {s : St} {w : Win} {v : Val} (hc : cell s w.buf w.off = some v) : s.rd w 1 0 = .ok v :=
+  St.rd_of_cell (by omega) (by omega) (by simpa using hc)
+
+theorem eOp_SV (st : St) (a b : Win) (f fv : BinF) (ha : a.len = 1) (hb : b.len ≠ 1) :
+    eOp st a b f fv = (do kSV st (← st.rd a 1 0) b f) := by
+  simp [eOp, isSc, ha, hb]
+
+theorem eOp_VS (st : St) (a b : Win) (f fv : BinF) (ha : a.len ≠ 1) (hb : b.len = 1) :
+    eOp st a b f fv = (do kVS st a (← st.rd b 1 0) f) := by
+  simp [eOp, isSc, ha, hb]
+
+theorem eOp_VV (st : St) (a b : Win) (f fv : BinF) (h : a.len = 1 ↔ b.len = 1) :
+    eOp st a b f fv = kVV st a b fv := by
+  by_cases ha : a.len = 1
+  · simp [eOp, isSc, ha, h.mp ha]
+  · have hb : b.len ≠ 1 := fun hb => ha (h.mpr hb)
+    simp [eOp, isSc, ha, hb]
+
+/-- scalar operand on the LEFT: `b[i] = f a0 b[i]` -/
+theorem eOp_scalar_left (st : St) (a b : Win) (f fv : BinF) (a0 : Val) (ha : a.len = 1) (hb : b.len ≠ 1)
+    (h0 : cell st a.buf a.off = some a0) : eOp st a b f fv = kSV st a0 b f := by
+  rw [eOp_SV st a b f fv ha hb, rd0_of_cell h0]; rfl
+
+/-- scalar operand on the RIGHT: `a[i] = f a[i] b0` -/
+theorem eOp_scalar_right (st : St) (a b : Win) (f fv : BinF) (b0 : Val) (ha : a.len ≠ 1) (hb : b.len = 1)
+    (h0 : cell st b.buf b.off = some b0) : eOp st a b f fv = kVS st a b0 f := by
+  rw [eOp_VS st a b f fv ha hb, rd0_of_cell h0]; rfl
+
+theorem eOpIter_SS (st : St) (a b : Win) (f fv : BinF) (ia ib : ItS) (ha : a.len = 1) (hb : b.len = 1) :
+    eOpIter st a b f ia ib fv = kVV st a b fv := by
+  simp [eOpIter, isSc, ha, hb]
+
+theorem eOpIter_SV (st : St) (a b : Win) (f fv : BinF) (ia ib : ItS) (ha : a.len = 1) (hb : b.len ≠ 1) :
+    eOpIter st a b f ia ib fv = (do kIterSV st (← st.rd a 1 0) b f ib) := by
+  simp [eOpIter, isSc, ha, hb]
+
+theorem eOpIter_VS (st : St) (a b : Win) (f fv : BinF) (ia ib : ItS) (ha : a.len ≠ 1) (hb : b.len = 1) :
+    eOpIter st a b f ia ib fv = (do kIterVS st a (← st.rd b 1 0) f ia) := by
+  simp [eOpIter, isSc, ha, hb]
+
+theorem eOpIter_VV (st : St) (a b : Win) (f fv : BinF) (ia ib : ItS) (ha : a.len ≠ 1) (hb : b.len ≠ 1) :
+    eOpIter st a b f ia ib fv = kIterVV st a b f ia ib := by
+  simp [eOpIter, isSc, ha, hb]
+
+theorem eOpIter_scalar_left (st : St) (a b : Win) (f fv : BinF) (ia ib : ItS) (a0 : Val) (ha : a.len = 1)
+    (hb : b.len ≠ 1) (h0 : cell st a.buf a.off = some a0) :
+    eOpIter st a b f ia ib fv = kIterSV st a0 b f ib := by
+  rw [eOpIter_SV st a b f fv ia ib ha hb, rd0_of_cell h0]; rfl
+
+theorem eOpIter_scalar_right (st : St) (a b : Win) (f fv : BinF) (ia ib : ItS) (b0 : Val) (ha : a.len ≠ 1)
+    (hb : b.len = 1) (h0 : cell st b.buf b.off = some b0) :
+    eOpIter st a b f ia ib fv = kIterVS st a b0 f ia := by
+  rw [eOpIter_VS st a b f fv ia ib ha hb, rd0_of_cell h0]; rfl
+
+/-- `E.Cmp` refuses a length-one receiver when exactly one operand is a scalar -/
+theorem eCmp_refuses (st : St) (a b r : Win) (f : BinF) (h : (a.len = 1 ∧ b.len ≠ 1) ∨ (b.len = 1 ∧ a.len ≠ 1))
+    (hr : r.len = 1) : eCmp st a b r f = .error (.err "retVal is a scalar") := by
+  rcases h with ⟨ha, hb⟩ | ⟨hb, ha⟩ <;> simp [eCmp, isSc, ha, hb, hr] <;> rfl
+
+theorem eCmp_SV (st : St) (a b r : Win) (f : BinF) (ha : a.len = 1) (hb : b.len ≠ 1) (hr : r.len ≠ 1) :
+    eCmp st a b r f = (do kRecvSV st (← st.rd a 1 0) b r f) := by
+  simp [eCmp, isSc, ha, hb, hr]
+
+theorem eCmp_VS (st : St) (a b r : Win) (f : BinF) (ha : a.len ≠ 1) (hb : b.len = 1) (hr : r.len ≠ 1) :
+    eCmp st a b r f = (do kRecvVS st a (← st.rd b 1 0) r f) := by
+  simp [eCmp, isSc, ha, hb, hr]
+
+theorem eCmp_VV (st : St) (a b r : Win) (f : BinF) (h : a.len = 1 ↔ b.len = 1) :
+    eCmp st a b r f = kCmpVV st a b r f := by
+  by_cases ha : a.len = 1
+  · simp [eCmp, kCmpVV, isSc, ha, h.mp ha]
+  · have hb : b.len ≠ 1 := fun hb => ha (h.mpr hb)
+    simp [eCmp, kCmpVV, isSc, ha, hb]
+
+theorem eOpIncr_SV (st : St) (a b incr : Win) (f fv : BinF) (ha : a.len = 1) (hb : b.len ≠ 1) :
+    eOpIncr st a b incr f fv = (do kIncrSV st (← st.rd a 1 0) b incr f accAdd) := by
+  simp [eOpIncr, isSc, ha, hb]
+
+theorem eOpIncr_VS (st : St) (a b incr : Win) (f fv : BinF) (ha : a.len ≠ 1) (hb : b.len = 1) :
+    eOpIncr st a b incr f fv = (do kIncrVS st a (← st.rd b 1 0) incr f accAdd) := by
+  simp [eOpIncr, isSc, ha, hb]
+
+theorem eOpIncr_VV (st : St) (a b incr : Win) (f fv : BinF) (ha : a.len ≠ 1) (hb : b.len ≠ 1) :
+    eOpIncr st a b incr f fv = kIncrVV st a b incr fv accAdd := by
+  simp [eOpIncr, isSc, ha, hb]
+
+/-- the scalar-scalar branch runs the in-place kernel on the operands first (finding F32) -/
+theorem eOpIncr_SS (st : St) (a b incr : Win) (f fv : BinF) (ha : a.len = 1) (hb : b.len = 1) :
+    eOpIncr st a b incr f fv = (do
+      let s ← kVV st a b fv
+      if incr.len ≠ 1 then eOp s incr a (fun x y => .app2 "add" x y)
+      else s.wr incr 1 0 (accAdd (← s.rd incr 1 0) (← s.rd a 1 0))) := by
+  simp [eOpIncr, isSc, ha, hb]
+
+/-- What the scalar-scalar branch of `E.OpIncr` does (finding F32): the *first operand* is overwritten
+    with `fv a0 b0`, and that value is added to every cell of `incr`. -/
+theorem eOpIncr_SS_spec (st : St) (a b incr : Win) (f fv : BinF) (ha : a.len = 1) (hb : b.len = 1)
+    (hab : a.buf ≠ b.buf) (hia : incr.buf ≠ a.buf) (hcap : 1 ≤ b.cap)
+    (hA : Has st a.buf a.off 1) (hB : Has st b.buf b.off 1) (hI : Has st incr.buf incr.off incr.len) :
+    ∃ st', eOpIncr st a b incr f fv = .ok st' ∧ st'.mheap = st.mheap ∧
+      cell st' a.buf a.off = some (fv (cellD st a.buf a.off) (cellD st b.buf b.off)) ∧
+      (∀ i, i < incr.len → cell st' incr.buf (incr.off + i) =
+        some (.app2 "add" (cellD st incr.buf (incr.off + i)) (fv (cellD st a.buf a.off) (cellD st b.buf b.off)))) ∧
+      (∀ b' k, b' ≠ incr.buf → (b' ≠ a.buf ∨ k ≠ a.off) → cell st' b' k = cell st b' k) := by
+  rw [eOpIncr_SS st a b incr f fv ha hb]
+  obtain ⟨s1, h1, w1⟩ := kVV_spec st a b fv hab (by omega) (by rw [ha]; exact hA) (by rw [ha]; exact hB)
+  rw [ha] at w1
+  have hc1 : cell s1 a.buf a.off = some (fv (cellD st a.buf a.off) (cellD st b.buf b.off)) := by
+    simpa using w1.val 0 (by omega)
+  have hI1 : Has s1 incr.buf incr.off incr.len := w1.has hI
+  have hfr1 : ∀ b' k, (b' ≠ a.buf ∨ k ≠ a.off) → cell s1 b' k = cell st b' k := by
+    intro b' k h
+    apply w1.frame
+    rcases h with h | h
+    · exact Or.inl h
+    · exact Or.inr (by omega)
+  simp only [h1, bind, Except.bind]
+  by_cases hi : incr.len = 1
+  · simp only [hi, ne_eq, not_true_eq_false, if_false]
+    have hci := hI1 0 (by omega)
+    simp only [Nat.add_zero] at hci
+    rw [rd0_of_cell (cell_some_cellD hci), rd0_of_cell hc1]
+    obtain ⟨s2, h2, hm2, _, hc2⟩ := St.wr_ok (s := s1) (w := incr) (n := 1) (i := 0)
+      (v := accAdd (cellD s1 incr.buf incr.off) (fv (cellD st a.buf a.off) (cellD st b.buf b.off)))
+      (by omega) (by omega) (by simpa using hci)
+    refine ⟨s2, h2, hm2.trans w1.mheap, ?_, ?_, ?_⟩
+    · rw [hc2]
+      simp only [hia.symm, false_and, if_false]
+      exact hc1
+    · intro i hlt
+      have : i = 0 := by omega
+      subst this
+      rw [hc2]
+      simp only [Int.toNat_zero, Nat.add_zero, and_self, if_true, accAdd]
+      rw [w1.cellD_other hia]
+    · intro b' k hb' h
+      rw [hc2]
+      simp only [hb', false_and, if_false]
+      exact hfr1 b' k h
+  · simp only [hi, ne_eq, not_false_eq_true, if_true]
+    rw [eOp_scalar_right s1 incr a _ _ _ hi ha hc1]
+    obtain ⟨s2, h2, w2⟩ := kVS_spec s1 incr (fv (cellD st a.buf a.off) (cellD st b.buf b.off))
+      (fun x y => .app2 "add" x y) hI1
+    refine ⟨s2, h2, w2.mheap.trans w1.mheap, ?_, ?_, ?_⟩
+    · rw [w2.other hia.symm]; exact hc1
+    · intro i hlt
+      rw [w2.val i hlt, w1.cellD_other hia]
+    · intro b' k hb' h
+      rw [w2.other hb']
+      exact hfr1 b' k h
+
+/-! ### `St.get` / `St.set`, `rawCopy`, `clone`, fresh tensors at cell level -/
+
+theorem St.get_of_cell {s : St} {w : Win} {i : Int} {v : Val} (h0 : 0 ≤ i) (h1 : i < w.len)
+    (hc : cell s w.buf (w.off + i.toNat) = some v) : s.get w i = .ok v := by
+  unfold St.get
+  have hr : (decide (i < 0) || decide (i ≥ (w.len : Int))) = false := by
+    simp only [Bool.or_eq_false_iff, decide_eq_false_iff_not]; omega
+  simp only [hr]
+  unfold cell at hc
+  cases hb : s.heap[w.buf]? with
+  | none => simp [hb] at hc
+  | some bb =>
+    simp only [hb, Option.bind_some] at hc
+    simp [hc]
+
+theorem St.set_total {s : St} {w : Win} {i : Int} {v : Val} (h0 : 0 ≤ i) (h1 : i < w.len)
+    (hc : (cell s w.buf (w.off + i.toNat)).isSome = true) :
+    ∃ s', s.set w i v = .ok s' ∧ s'.mheap = s.mheap ∧ s'.heap.size = s.heap.size ∧
+      ∀ b k, cell s' b k = if b = w.buf ∧ k = w.off + i.toNat then some v else cell s b k := by
+  obtain ⟨s', hw, h⟩ := St.wr_ok (v := v) (n := w.len) h0 h1 hc
+  refine ⟨s', ?_, h⟩
+  have hr : (decide (i < 0) || decide (i ≥ (w.len : Int))) = false := by
+    simp only [Bool.or_eq_false_iff, decide_eq_false_iff_not]; omega
+  unfold St.wr at hw
+  unfold St.set
+  simp only [hr] at hw ⊢
+  cases hb : s.heap[w.buf]? with
+  | none => simp only [hb] at hw; cases hw
+  | some bb =>
+    simp only [hb] at hw ⊢
+    by_cases hk : w.off + i.toNat < bb.size
+    · simp only [hk, if_true] at hw ⊢; exact hw
+    · simp only [hk, if_false] at hw; cases hw
+
+theorem mapM_ok_of {α β : Type} (f : α → Res β) (g : α → β) :
+    ∀ (l : List α), (∀ x ∈ l, f x = .ok (g x)) → l.mapM f = .ok (l.map g) := by
+  intro l
+  induction l with
+  | nil => intro _; rfl
+  | cons x xs ih =>
+    intro h
+    simp only [List.mapM_cons, bind, Except.bind, pure, Except.pure, h x (by simp),
+      ih (fun y hy => h y (List.mem_cons_of_mem _ hy)), List.map_cons]
+
+theorem rawCopy_wr_total (dst : Win) :
+    ∀ (vals : List Val) (s : St) (j : Nat), j + vals.length ≤ dst.len → Has s dst.buf (dst.off + j) vals.length →
+      ∃ s', Dense.rawCopy.wr dst s (j : Int) vals = .ok s' ∧ s'.mheap = s.mheap ∧ s'.heap.size = s.heap.size ∧
+        (∀ i, i < vals.length → cell s' dst.buf (dst.off + j + i) = vals[i]?) ∧
+        (∀ b k, (b ≠ dst.buf ∨ k < dst.off + j ∨ dst.off + j + vals.length ≤ k) → cell s' b k = cell s b k) := by
+  intro vals
+  induction vals with
+  | nil =>
+    intro s j _ _
+    exact ⟨s, rfl, rfl, rfl, fun i hi => by simp at hi, fun _ _ _ => rfl⟩
+  | cons v vs ih =>
+    intro s j hlen hh
+    simp only [List.length_cons] at hlen hh
+    obtain ⟨s1, h1, hm1, hs1, hc1⟩ := St.set_total (s := s) (w := dst) (i := (j : Int)) (v := v)
+      (by omega) (by omega) (by simpa using hh 0 (by omega))
+    simp only [Int.toNat_natCast] at hc1
+    have hh1 : Has s1 dst.buf (dst.off + (j + 1)) vs.length := by
+      intro i hi
+      rw [hc1]
+      split
+      · rfl
+      · have := hh (i + 1) (by omega)
+        rwa [show dst.off + j + (i + 1) = dst.off + (j + 1) + i by omega] at this
+    obtain ⟨s2, h2, hm2, hs2, hv2, hf2⟩ := ih s1 (j + 1) (by omega) hh1
+    have hcast : (j : Int) + 1 = ((j + 1 : Nat) : Int) := by omega
+    refine ⟨s2, ?_, hm2.trans hm1, hs2.trans hs1, ?_, ?_⟩
+    · simp only [Dense.rawCopy.wr, h1, bind, Except.bind, hcast]; exact h2
+    · intro i hi
+      cases i with
+      | zero =>
+        rw [hf2 _ _ (Or.inr (Or.inl (by omega))), hc1]
+        simp
+      | succ i =>
+        simp only [List.length_cons] at hi
+        have := hv2 i (by omega)
+        rw [show dst.off + (j + 1) + i = dst.off + j + (i + 1) by omega] at this
+        rw [this]; simp
+    · intro b k hbk
+      simp only [List.length_cons] at hbk
+      have hbk' : b ≠ dst.buf ∨ k < dst.off + (j + 1) ∨ dst.off + (j + 1) + vs.length ≤ k := by
+        rcases hbk with h | h | h
+        · exact Or.inl h
+        · exact Or.inr (Or.inl (by omega))
+        · exact Or.inr (Or.inr (by omega))
+      rw [hf2 b k hbk', hc1]
+      split
+      · rename_i hh'
+        rcases hbk with h | h | h
+        · exact absurd hh'.1 h
+        · omega
+        · omega
+      · rfl
+
+/-- `copy(dst, src)` always succeeds on existing cells and copies the common prefix (the values are
+    read before anything is written, so the windows may overlap) -/
+theorem rawCopy_total (s : St) (dst src : Win)
+    (hs : Has s src.buf src.off (min dst.len src.len)) (hd : Has s dst.buf dst.off (min dst.len src.len)) :
+    ∃ s', Dense.rawCopy s dst src = .ok s' ∧
+      Writes s s' dst.buf dst.off (min dst.len src.len) (fun i => cellD s src.buf (src.off + i)) := by
+  unfold Dense.rawCopy
+  have hm : (rangeI (min dst.len src.len)).mapM (fun i => s.get src i) =
+      .ok ((rangeI (min dst.len src.len)).map (fun i => cellD s src.buf (src.off + i.toNat))) := by
+    apply mapM_ok_of
+    intro x hx
+    obtain ⟨k, hk, rfl⟩ := mem_rangeI.mp hx
+    exact St.get_of_cell (by omega) (by omega) (by simpa using cell_some_cellD (hs k hk))
+  simp only [hm, bind, Except.bind]
+  have hlen : ((rangeI (min dst.len src.len)).map (fun i => cellD s src.buf (src.off + i.toNat))).length =
+      min dst.len src.len := by simp [rangeI]
+  obtain ⟨s', h', hm', hs', hv', hf'⟩ := rawCopy_wr_total dst _ s 0 (by rw [hlen]; omega)
+    (by rw [hlen]; simpa using hd)
+  refine ⟨s', by simpa using h', hm', hs', ?_, ?_⟩
+  · intro i hi
+    have := hv' i (by rw [hlen]; exact hi)
+    simp only [Nat.add_zero] at this
+    rw [this]
+    simp [rangeI, hi]
+  · intro b k hbk
+    apply hf'
+    rw [hlen]
+    simpa using hbk
+
+theorem cell_push_lt (st : St) (x : Array Val) (b k : Nat) (hb : b < st.heap.size) :
+    cell { st with heap := st.heap.push x } b k = cell st b k := push_cell st.heap x b k hb
+
+theorem cell_push_new (st : St) (x : Array Val) (k : Nat) :
+    cell { st with heap := st.heap.push x } st.heap.size k = x[k]? := by
+  simp [cell]
+
+theorem Has.push {st : St} {b off n : Nat} (h : Has st b off n) (hb : b < st.heap.size) (x : Array Val) :
+    Has { st with heap := st.heap.push x } b off n := by
+  intro i hi
+  rw [cell_push_lt st x b _ hb]; exact h i hi
+
+theorem Has.push_new (st : St) (n : Nat) (v : Val) :
+    Has { st with heap := st.heap.push (Array.replicate n v) } st.heap.size 0 n := by
+  intro i hi
+  rw [cell_push_new]
+  simp [hi]
+
+theorem cell_isSome_heap {s : St} {b k : Nat} (h : (cell s b k).isSome = true) :
+    ∃ ba, s.heap[b]? = some ba ∧ k < ba.size := by
+  unfold cell at h
+  cases hb : s.heap[b]? with
+  | none => simp [hb] at h
+  | some ba =>
+    refine ⟨ba, rfl, ?_⟩
+    simp only [hb, Option.bind_some] at h
+    cases hx : ba[k]? with
+    | none => simp [hx] at h
+    | some x => exact (Array.getElem?_eq_some_iff.mp hx).1
+
+theorem cell_some_heap {s : St} {b k : Nat} {v : Val} (h : cell s b k = some v) :
+    ∃ ba, s.heap[b]? = some ba ∧ ba[k]? = some v := by
+  unfold cell at h
+  cases hb : s.heap[b]? with
+  | none => simp [hb] at h
+  | some ba =>
+    refine ⟨ba, rfl, ?_⟩
+    simpa [hb] using h
+
+/-- the tensor returned by `Clone()` in state `st` -/
+def cloneOf (st : St) (t : Dense) : Dense :=
+  { ap := { t.ap with fin := true }, old := t.old, tw := none,
+    win := ⟨st.heap.size, 0, t.win.len, t.win.len⟩, dt := t.dt, eng := t.eng }
+
+/-- `Clone()` of an unmasked tensor whose window lies in an allocated buffer: total, fresh buffer,
+    content copied, every existing buffer untouched -/
+theorem clone_spec (st : St) (t : Dense) (hnm : t.mask = none) (hin : t.win.buf < st.heap.size)
+    (hh : Has st t.win.buf t.win.off t.win.len) :
+    ∃ st', t.clone st = .ok (st', cloneOf st t) ∧ st'.mheap = st.mheap ∧ st'.heap.size = st.heap.size + 1 ∧
+      (∀ i, i < t.win.len → cell st' st.heap.size i = some (cellD st t.win.buf (t.win.off + i))) ∧
+      (∀ b k, b < st.heap.size → cell st' b k = cell st b k) := by
+  have hmin : min t.win.len t.win.len = t.win.len := Nat.min_self _
+  obtain ⟨s', h', w'⟩ := rawCopy_total { st with heap := st.heap.push (Array.replicate t.win.len Val.zero) }
+    ⟨st.heap.size, 0, t.win.len, t.win.len⟩ t.win
+    (by simp only [hmin]; exact hh.push hin _)
+    (by simp only [hmin]; exact Has.push_new st t.win.len Val.zero)
+  simp only [hmin] at w'
+  refine ⟨s', ?_, w'.mheap, by rw [w'.size]; simp, ?_, ?_⟩
+  · unfold Dense.clone Dense.copyDense Dense.copyMask St.alloc
+    simp only [hnm, bind, Except.bind, pure, Except.pure, h']
+    rfl
+  · intro i hi
+    have := w'.val i hi
+    simp only [Nat.zero_add] at this
+    rw [this]
+    unfold cellD
+    rw [cell_push_lt st _ _ _ hin]
+  · intro b k hb
+    rw [w'.frame b k (Or.inl (Nat.ne_of_lt hb))]
+    exact cell_push_lt st _ b k hb
+
+/-- number of cells of a freshly created dense tensor of shape `sh` -/
+def denseLen (sh : Shape) : Nat := if sh.isEmpty then 1 else (totalSize sh).toNat
+
+/-- the state after allocating a zero-filled buffer of `n` cells -/
+def allocZero (st : St) (n : Nat) : St := { st with heap := st.heap.push (Array.replicate n Val.zero) }
+
+/-- the tensor created by `NewDense(dt, shape)` in state `st`: fresh buffer, row-major default strides -/
+def freshOf (st : St) (dt : String) (sh : Shape) : Dense :=
+  { ap := { shape := sh, strides := calcStrides sh, fin := true, o := { col := false } },
+    win := ⟨st.heap.size, 0, denseLen sh, denseLen sh⟩, dt := dt, eng := .std }
+
+theorem newDenseZero_eq (st : St) (dt : String) (sh : Shape) :
+    newDenseZero st dt sh = (allocZero st (denseLen sh), freshOf st dt sh) := by
+  simp [newDenseZero, Dense.fresh, St.alloc, allocZero, freshOf, denseLen, Dense.defaultStrides]
+
+theorem allocZero_cell_lt (st : St) (n b k : Nat) (hb : b < st.heap.size) :
+    cell (allocZero st n) b k = cell st b k := cell_push_lt st _ b k hb
+
+theorem allocZero_has (st : St) (n : Nat) : Has (allocZero st n) st.heap.size 0 n := Has.push_new st n Val.zero
+
+theorem allocZero_cellD_lt (st : St) (n b k : Nat) (hb : b < st.heap.size) :
+    cellD (allocZero st n) b k = cellD st b k := by
+  unfold cellD; rw [allocZero_cell_lt st n b k hb]
+
+theorem Has.allocZero {st : St} {b off n : Nat} (h : Has st b off n) (hb : b < st.heap.size) (m : Nat) :
+    Has (TM.allocZero st m) b off n := h.push hb _
+
+/-! ### `storage.CopyIter` -/
+
+/-- one step of `storage.CopyIter` -/
+def stepCopyIter (dst src : Win) (s : St) (x : Int × Int) : Res St :=
+  if x.1 < 0 || x.2 < 0 || x.1 ≥ dst.cap || x.2 ≥ src.cap then throwPanic "CopyIter: slice bounds out of range" else do
+    let v ← (match s.heap[src.buf]? with
+      | some b => (match b[src.off + x.2.toNat]? with | some v => pure v | none => throwPanic "src")
+      | none => throwPanic "src" : Res Val)
+    match s.heap[dst.buf]? with
+    | some b =>
+      if dst.off + x.1.toNat < b.size then
+        .ok { s with heap := s.heap.set! dst.buf (b.set! (dst.off + x.1.toNat) v) }
+      else throwPanic "dst"
+    | none => throwPanic "dst"
+
+theorem copyIterOffsets_fold (dst src : Win) : ∀ (is js : List Int) (s : St),
+    Dense.copyIterOffsets s dst src is js = (is.zip js).foldlM (stepCopyIter dst src) s := by
+  intro is
+  induction is with
+  | nil => intro js s; simp [Dense.copyIterOffsets]; rfl
+  | cons i is ih =>
+    intro js s
+    cases js with
+    | nil => simp [Dense.copyIterOffsets]; rfl
+    | cons j js =>
+      simp only [Dense.copyIterOffsets, List.zip_cons_cons, List.foldlM_cons, stepCopyIter, ih]
+      split
+      · rfl
+      · simp only [bind, Except.bind]
+        cases hs : s.heap[src.buf]? with
+        | none => rfl
+        | some bs =>
+          simp only
+          cases hv : bs[src.off + j.toNat]? with
+          | none => rfl
+          | some v =>
+            simp only [pure, Except.pure]
+            cases hd : s.heap[dst.buf]? with
+            | none => rfl
+            | some b =>
+              simp only
+              split <;> rfl
+
+/-- `storage.CopyIter` between different buffers: `dst[is[k]] = src[js[k]]` for the common prefix -/
+theorem copyIterOffsets_spec (st : St) (dst src : Win) (is js : List Int) (nd ns : Nat)
+    (hne : dst.buf ≠ src.buf) (hnd : nd ≤ dst.cap) (hns : ns ≤ src.cap)
+    (hri : ∀ i ∈ is, 0 ≤ i ∧ i < (nd : Int)) (hrj : ∀ j ∈ js, 0 ≤ j ∧ j < (ns : Int)) (hdup : is.Nodup)
+    (hd : Has st dst.buf dst.off nd) (hs : Has st src.buf src.off ns) :
+    ∃ st', Dense.copyIterOffsets st dst src is js = .ok st' ∧ st'.mheap = st.mheap ∧ st'.heap.size = st.heap.size ∧
+      (∀ (k : Nat) i j, is[k]? = some i → js[k]? = some j →
+        cell st' dst.buf (dst.off + i.toNat) = some (cellD st src.buf (src.off + j.toNat))) ∧
+      (∀ b' k', (b' ≠ dst.buf ∨ ∀ (k : Nat) i j, is[k]? = some i → js[k]? = some j → k' ≠ dst.off + i.toNat) →
+        cell st' b' k' = cell st b' k') := by
+  rw [copyIterOffsets_fold]
+  obtain ⟨st', hf, hm, hsz, hv, hfr⟩ := wrLoop dst dst.cap (fun x : Int × Int => x.1) (fun _ => true)
+    (fun x => cellD st src.buf (src.off + x.2.toNat)) (stepCopyIter dst src) (is.zip js) st
+    (by
+      intro x hx _
+      have := hri x.1 (List.of_mem_zip hx).1
+      exact ⟨this.1, by omega, hd.at this.1 this.2⟩)
+    ((pairwise_zip_fst is js hdup).imp (fun h _ _ => h))
+    (by
+      intro s x hx _ hag
+      have h1 := hri x.1 (List.of_mem_zip hx).1
+      have h2 := hrj x.2 (List.of_mem_zip hx).2
+      have hc : (decide (x.1 < 0) || decide (x.2 < 0) || decide (x.1 ≥ (dst.cap : Int)) ||
+          decide (x.2 ≥ (src.cap : Int))) = false := by
+        simp only [Bool.or_eq_false_iff, decide_eq_false_iff_not]; omega
+      have hr : (decide (x.1 < 0) || decide (x.1 ≥ (dst.cap : Int))) = false := by
+        simp only [Bool.or_eq_false_iff, decide_eq_false_iff_not]; omega
+      obtain ⟨bs, hbs, hbv⟩ := cell_some_heap
+        ((hag _ _ (Or.inl hne.symm)).trans (cell_some_cellD (hs.at h2.1 h2.2)))
+      obtain ⟨bd, hbd, hbk⟩ := cell_isSome_heap
+        (by rw [hag _ _ (Or.inr rfl)]; exact hd.at h1.1 h1.2 : (cell s dst.buf (dst.off + x.1.toNat)).isSome = true)
+      unfold stepCopyIter St.wr
+      simp only [hc, hr, hbs, hbv, hbd, hbk, bind, Except.bind, pure, Except.pure, if_true, Bool.false_eq_true, if_false])
+    (by intro s x _ h; cases h)
+  refine ⟨st', hf, hm, hsz, ?_, ?_⟩
+  · intro k i j h1 h2
+    exact hv (i, j) (mem_zip_iff.mpr ⟨k, h1, h2⟩) rfl
+  · intro b' k' hbk
+    apply hfr
+    rcases hbk with hb' | hk
+    · exact Or.inl hb'
+    · refine Or.inr ?_
+      intro x hx _
+      obtain ⟨k, h1, h2⟩ := mem_zip_iff.mp hx
+      exact hk k x.1 x.2 h1 h2
+/-! ### engine glue: options -/
+
+theorem hfo_none (st : St) (sh : Shape) (dt : String) (col strict : Bool) (u sm : Bool) :
+    handleFuncOpts st sh dt col strict { unsafe_ := u, same := sm } =
+      .ok (st, { reuse := none, safe := !u, toReuse := false, incr := false, same := sm }) := rfl
+
+/-- a reuse / incr tensor that `handleFuncOpts` accepts as it is -/
+structure ReuseFits (r : Dense) (sh : Shape) (dt : String) (col : Bool) : Prop where
+  dt : r.dt = dt
+  len : (r.win.len : Int) = totalSize sh
+  shape : shapeEq r.shape sh = true
+  col : r.ap.o.col = col
+
+theorem hfo_reuse (st : St) (sh : Shape) (dt : String) (col strict : Bool) (r : Dense)
+    (h : ReuseFits r sh dt col) :
+    handleFuncOpts st sh dt col strict { reuse := some r } =
+      .ok (st, { reuse := some r, safe := true, toReuse := true, incr := false, same := false }) := by
+  unfold handleFuncOpts
+  simp [h.dt, h.len, h.shape, h.col, bind, Except.bind, pure, Except.pure]
+
+theorem hfo_incr (st : St) (sh : Shape) (dt : String) (col strict : Bool) (r : Dense)
+    (h : ReuseFits r sh dt col) :
+    handleFuncOpts st sh dt col strict { incr := some r } =
+      .ok (st, { reuse := some r, safe := true, toReuse := true, incr := true, same := false }) := by
+  unfold handleFuncOpts
+  simp [h.dt, h.len, h.shape, bind, Except.bind, pure, Except.pure]
+
+theorem itStream_nomask (st : St) (t : Dense) (hm : t.mask = none) :
+    t.itStream st = .ok (t.offsets.map (·, true)) := by
+  unfold Dense.itStream
+  simp [hm]
+  rfl
+
+theorem requiresIterator_len {t : Dense} (h : t.requiresIterator = true) : t.win.len ≠ 1 := by
+  intro h1
+  simp [Dense.requiresIterator, h1] at h
+
+
+/-! ### `engArithVV`: which code path is taken -/
+
+/-- the four checks of `binaryCheck` pass -/
+structure BinOK (tc : List String) (a b : Dense) : Prop where
+  ta : tc.contains a.dt = true
+  dt : a.dt = b.dt
+  sh : shapeEq a.shape b.shape = true
+
+theorem BinOK.tb {tc : List String} {a b : Dense} (h : BinOK tc a b) : tc.contains b.dt = true := h.dt ▸ h.ta
+theorem BinOK.ne {tc : List String} {a b : Dense} (h : BinOK tc a b) : (a.dt != b.dt) = false := by simp [h.dt]
+
+theorem engArithVV_raw_safe (st : St) (op : String) (tc : List String) (a b : Dense) (hc : BinOK tc a b)
+    (hk : (kernelTypes op).contains a.dt = true) (hia : a.requiresIterator = false)
+    (hib : b.requiresIterator = false) (hord : sameOrd a b = true) :
+    engArithVV st op tc a b {} = (do
+      let (s, c) ← a.clone st
+      let s ← eOp s c.win b.win (fun x y => .app2 op x y) (vecFn op a.dt)
+      pure ⟨s, none, .fresh c⟩) := by
+  unfold engArithVV
+  simp only [hc.ta, hc.tb, hc.ne, hc.sh, hfo_none, hk, hia, hib, hord, bind, Except.bind, pure, Except.pure,
+    Bool.not_true, Bool.false_eq_true, if_false, Bool.or_false, Bool.and_false, Bool.not_false,
+    Bool.and_true]
+
+theorem engArithVV_raw_unsafe (st : St) (op : String) (tc : List String) (a b : Dense) (hc : BinOK tc a b)
+    (hk : (kernelTypes op).contains a.dt = true) (hia : a.requiresIterator = false)
+    (hib : b.requiresIterator = false) (hord : sameOrd a b = true) :
+    engArithVV st op tc a b { unsafe_ := true } = (do
+      let s ← eOp st a.win b.win (fun x y => .app2 op x y) (vecFn op a.dt)
+      pure ⟨s, none, .a⟩) := by
+  unfold engArithVV
+  simp only [hc.ta, hc.tb, hc.ne, hc.sh, hfo_none, hk, hia, hib, hord, bind, Except.bind, pure, Except.pure,
+    Bool.not_true, Bool.false_eq_true, if_false, Bool.or_false, Bool.and_false, Bool.not_false,
+    Bool.and_true, if_true]
+
+theorem sameOrd_of_col {a b r : Dense} (hord : sameOrd a b = true) (hcol : r.ap.o.col = a.ap.o.col) :
+    sameOrd a r = true ∧ sameOrd b r = true := by
+  simp only [sameOrd, beq_iff_eq] at hord ⊢
+  exact ⟨hcol.symm, by rw [← hord, hcol]⟩
+
+theorem engArithVV_raw_reuse (st : St) (op : String) (tc : List String) (a b r : Dense) (hc : BinOK tc a b)
+    (hk : (kernelTypes op).contains a.dt = true) (hia : a.requiresIterator = false)
+    (hib : b.requiresIterator = false) (hir : r.requiresIterator = false) (hord : sameOrd a b = true)
+    (hr : ReuseFits r a.shape a.dt a.ap.o.col) :
+    engArithVV st op tc a b { reuse := some r } = (do
+      let s ← eOpRecv st a.win b.win r.win (fun x y => .app2 op x y)
+      pure ⟨s, some r, .reuse⟩) := by
+  obtain ⟨h1, h2⟩ := sameOrd_of_col hord hr.col
+  unfold engArithVV
+  simp only [hc.ta, hc.tb, hc.ne, hc.sh, hfo_reuse _ _ _ _ _ _ hr, hk, hia, hib, hir, hord, h1, h2, bind,
+    Except.bind, pure, Except.pure,
+    Bool.not_true, Bool.false_eq_true, if_false, Bool.or_false, Bool.and_false, Bool.not_false,
+    Bool.and_true, if_true, Bool.false_and]
+
+theorem engArithVV_raw_incr (st : St) (op : String) (tc : List String) (a b r : Dense) (hc : BinOK tc a b)
+    (hk : (kernelTypes op).contains a.dt = true) (hia : a.requiresIterator = false)
+    (hib : b.requiresIterator = false) (hir : r.requiresIterator = false) (hord : sameOrd a b = true)
+    (hr : ReuseFits r a.shape a.dt a.ap.o.col) :
+    engArithVV st op tc a b { incr := some r } = (do
+      let s ← eOpIncr st a.win b.win r.win (fun x y => .app2 op x y) (vecFn op a.dt)
+      pure ⟨s, some r, .reuse⟩) := by
+  obtain ⟨h1, h2⟩ := sameOrd_of_col hord hr.col
+  unfold engArithVV
+  simp only [hc.ta, hc.tb, hc.ne, hc.sh, hfo_incr _ _ _ _ _ _ hr, hk, hia, hib, hir, hord, h1, h2, bind,
+    Except.bind, pure, Except.pure,
+    Bool.not_true, Bool.false_eq_true, if_false, Bool.or_false, Bool.and_false, Bool.not_false,
+    Bool.and_true, if_true, Bool.false_and]
+
+theorem engArithVV_iter_safe (st : St) (op : String) (tc : List String) (a b : Dense) (hc : BinOK tc a b)
+    (hk : (kernelTypes op).contains a.dt = true) (hia : a.requiresIterator = true)
+    (hma : a.mask = none) (hmb : b.mask = none) :
+    engArithVV st op tc a b {} = (do
+      let (s, c) ← a.clone st
+      let s ← eOpIter s c.win b.win (fun x y => .app2 op x y) (a.offsets.map (·, true)) (b.offsets.map (·, true))
+        (vecFn op a.dt)
+      pure ⟨s, none, .fresh c⟩) := by
+  unfold engArithVV
+  simp only [hc.ta, hc.tb, hc.ne, hc.sh, hfo_none, hk, hia, itStream_nomask _ _ hma, itStream_nomask _ _ hmb,
+    bind, Except.bind, pure, Except.pure,
+    Bool.not_true, Bool.false_eq_true, if_false, Bool.or_false, Bool.and_false, Bool.not_false,
+    Bool.and_true, if_true, Bool.true_or]
+
+theorem engArithVV_iter_reuse (st : St) (op : String) (tc : List String) (a b r : Dense) (hc : BinOK tc a b)
+    (hk : (kernelTypes op).contains a.dt = true) (hia : a.requiresIterator = true)
+    (hma : a.mask = none) (hmb : b.mask = none) (hmr : r.mask = none)
+    (hr : ReuseFits r a.shape a.dt a.ap.o.col) :
+    engArithVV st op tc a b { reuse := some r } = (do
+      let s ← Dense.copyIterOffsets st r.win a.win r.offsets a.offsets
+      let s ← eOpIter s r.win b.win (fun x y => .app2 op x y) (r.offsets.map (·, true)) (b.offsets.map (·, true))
+        (vecFn op a.dt)
+      pure ⟨s, some r, .reuse⟩) := by
+  have hmap : ∀ l : List Int, (l.map (·, true)).map (·.1) = l := by
+    intro l; induction l with
+    | nil => rfl
+    | cons x xs ih => simp only [List.map_cons, ih]
+  unfold engArithVV
+  simp only [hc.ta, hc.tb, hc.ne, hc.sh, hfo_reuse _ _ _ _ _ _ hr, hk, hia, itStream_nomask _ _ hma,
+    itStream_nomask _ _ hmb, itStream_nomask _ _ hmr, hmap,
+    bind, Except.bind, pure, Except.pure,
+    Bool.not_true, Bool.false_eq_true, if_false, Bool.or_false, Bool.and_false, Bool.not_false,
+    Bool.and_true, if_true, Bool.true_or, Bool.false_and]
+
+
+/-! ### `engArithVV`: what the call does -/
+
+theorem engArithVV_safe_raw' (st : St) (op : String) (tc : List String) (a b : Dense) (hc : BinOK tc a b)
+    (hk : (kernelTypes op).contains a.dt = true) (hia : a.requiresIterator = false)
+    (hib : b.requiresIterator = false) (hord : sameOrd a b = true)
+    (hm : a.mask = none) (hlen : a.win.len = b.win.len) (hcap : a.win.len ≤ b.win.cap)
+    (hA : InBuf st a.win.buf a.win.off a.win.len) (hB : InBuf st b.win.buf b.win.off a.win.len) :
+    ∃ st', engArithVV st op tc a b {} = .ok ⟨st', none, .fresh (cloneOf st a)⟩ ∧ st'.mheap = st.mheap ∧
+      (∀ i, i < a.win.len → cell st' st.heap.size i =
+        some (vecFn op a.dt (cellD st a.win.buf (a.win.off + i)) (cellD st b.win.buf (b.win.off + i)))) ∧
+      (∀ b' k, b' < st.heap.size → cell st' b' k = cell st b' k) := by
+  rw [engArithVV_raw_safe st op tc a b hc hk hia hib hord]
+  obtain ⟨s1, h1, hm1, hs1, hv1, hf1⟩ := clone_spec st a hm hA.lt hA.has
+  simp only [h1, bind, Except.bind]
+  rw [eOp_VV _ _ _ _ _ (by simp [cloneOf, hlen])]
+  have hHc : Has s1 st.heap.size 0 a.win.len := by
+    intro i hi
+    rw [Nat.zero_add, hv1 i hi]; rfl
+  have hHb : Has s1 b.win.buf b.win.off a.win.len := by
+    intro i hi
+    rw [hf1 _ _ hB.lt]; exact hB.has i hi
+  obtain ⟨s2, h2, w2⟩ := kVV_spec s1 (cloneOf st a).win b.win (vecFn op a.dt)
+    (by simp only [cloneOf]; exact (Nat.ne_of_lt hB.lt).symm) hcap hHc hHb
+  simp only [cloneOf] at h2 w2 ⊢
+  refine ⟨s2, by rw [h2]; rfl, w2.mheap.trans hm1, ?_, ?_⟩
+  · intro i hi
+    have := w2.val i hi
+    simp only [Nat.zero_add] at this
+    rw [this, cellD_of_some (hv1 i hi)]
+    unfold cellD
+    rw [hf1 _ _ hB.lt]
+  · intro b' k hb'
+    rw [w2.other (Nat.ne_of_lt hb'), hf1 b' k hb']
+
+theorem engArithVV_refuses' (st : St) (op : String) (tc : List String) (a b : Dense) (o : Opts)
+    (h : tc.contains a.dt = false ∨ a.dt ≠ b.dt ∨ shapeEq a.shape b.shape = false) :
+    ∃ tag, engArithVV st op tc a b o = .error (.err tag) := by
+  unfold engArithVV
+  by_cases h1 : tc.contains a.dt = true
+  · by_cases h2 : tc.contains b.dt = true
+    · by_cases h3 : a.dt = b.dt
+      · have h4 : shapeEq a.shape b.shape = false := by
+          rcases h with h | h | h
+          · rw [h1] at h; cases h
+          · exact absurd h3 h
+          · exact h
+        have hne : (a.dt != b.dt) = false := by simp [h3]
+        simp only [h1, h2, hne, h4, bind, Except.bind, Bool.not_true, Bool.false_eq_true, if_false, Bool.not_false,
+          if_true, throwErr]
+        exact ⟨_, rfl⟩
+      · have hne : (a.dt != b.dt) = true := by simp [h3]
+        simp only [h1, h2, hne, bind, Except.bind, Bool.not_true, Bool.false_eq_true, if_false, if_true, throwErr]
+        exact ⟨_, rfl⟩
+    · simp only [h1, h2, bind, Except.bind, Bool.not_true, Bool.false_eq_true, if_false, Bool.not_false, if_true,
+        throwErr]
+      exact ⟨_, rfl⟩
+  · simp only [h1, bind, Except.bind, Bool.not_false, if_true, throwErr]
+    exact ⟨_, rfl⟩
+
+/-- `UseUnsafe()` mode, raw path: only the window of `a` is written -/
+theorem engArithVV_unsafe_raw' (st : St) (op : String) (tc : List String) (a b : Dense) (hc : BinOK tc a b)
+    (hk : (kernelTypes op).contains a.dt = true) (hia : a.requiresIterator = false)
+    (hib : b.requiresIterator = false) (hord : sameOrd a b = true)
+    (hne : a.win.buf ≠ b.win.buf) (hlen : a.win.len = b.win.len) (hcap : a.win.len ≤ b.win.cap)
+    (hA : InBuf st a.win.buf a.win.off a.win.len) (hB : InBuf st b.win.buf b.win.off a.win.len) :
+    ∃ st', engArithVV st op tc a b { unsafe_ := true } = .ok ⟨st', none, .a⟩ ∧
+      Writes st st' a.win.buf a.win.off a.win.len (fun i =>
+        vecFn op a.dt (cellD st a.win.buf (a.win.off + i)) (cellD st b.win.buf (b.win.off + i))) := by
+  rw [engArithVV_raw_unsafe st op tc a b hc hk hia hib hord, eOp_VV _ _ _ _ _ (by rw [hlen])]
+  obtain ⟨s2, h2, w2⟩ := kVV_spec st a.win b.win (vecFn op a.dt) hne hcap hA.has hB.has
+  exact ⟨s2, by simp only [h2, bind, Except.bind]; rfl, w2⟩
+
+/-- reuse mode, raw path: only the window of the reuse tensor is written -/
+theorem engArithVV_reuse_raw' (st : St) (op : String) (tc : List String) (a b r : Dense) (hc : BinOK tc a b)
+    (hk : (kernelTypes op).contains a.dt = true) (hia : a.requiresIterator = false)
+    (hib : b.requiresIterator = false) (hir : r.requiresIterator = false) (hord : sameOrd a b = true)
+    (hr : ReuseFits r a.shape a.dt a.ap.o.col)
+    (hna : a.win.buf ≠ r.win.buf) (hnb : b.win.buf ≠ r.win.buf)
+    (hca : r.win.len ≤ a.win.cap) (hcb : r.win.len ≤ b.win.cap)
+    (hA : InBuf st a.win.buf a.win.off r.win.len) (hB : InBuf st b.win.buf b.win.off r.win.len)
+    (hR : InBuf st r.win.buf r.win.off r.win.len) :
+    ∃ st', engArithVV st op tc a b { reuse := some r } = .ok ⟨st', some r, .reuse⟩ ∧
+      Writes st st' r.win.buf r.win.off r.win.len (fun i =>
+        .app2 op (cellD st a.win.buf (a.win.off + i)) (cellD st b.win.buf (b.win.off + i))) := by
+  rw [engArithVV_raw_reuse st op tc a b r hc hk hia hib hir hord hr]
+  obtain ⟨s2, h2, w2⟩ := kRecvVV_spec st a.win b.win r.win (fun x y => .app2 op x y) hna hnb hca hcb
+    hA.has hB.has hR.has
+  exact ⟨s2, by simp only [eOpRecv, h2, bind, Except.bind]; rfl, w2⟩
+
+/-- incr mode, raw path, non-scalar operands: `incr[i] += a[i] op b[i]`, only `incr` is written -/
+theorem engArithVV_incr_raw' (st : St) (op : String) (tc : List String) (a b r : Dense) (hc : BinOK tc a b)
+    (hk : (kernelTypes op).contains a.dt = true) (hia : a.requiresIterator = false)
+    (hib : b.requiresIterator = false) (hir : r.requiresIterator = false) (hord : sameOrd a b = true)
+    (hr : ReuseFits r a.shape a.dt a.ap.o.col)
+    (hna : a.win.buf ≠ r.win.buf) (hnb : b.win.buf ≠ r.win.buf)
+    (hla : a.win.len ≠ 1) (hlb : b.win.len ≠ 1)
+    (hcb : a.win.len ≤ b.win.cap) (hcr : a.win.len ≤ r.win.cap)
+    (hA : InBuf st a.win.buf a.win.off a.win.len) (hB : InBuf st b.win.buf b.win.off a.win.len)
+    (hR : InBuf st r.win.buf r.win.off a.win.len) :
+    ∃ st', engArithVV st op tc a b { incr := some r } = .ok ⟨st', some r, .reuse⟩ ∧
+      Writes st st' r.win.buf r.win.off a.win.len (fun i =>
+        accAdd (cellD st r.win.buf (r.win.off + i))
+          (vecFn op a.dt (cellD st a.win.buf (a.win.off + i)) (cellD st b.win.buf (b.win.off + i)))) := by
+  rw [engArithVV_raw_incr st op tc a b r hc hk hia hib hir hord hr, eOpIncr_VV _ _ _ _ _ _ hla hlb]
+  obtain ⟨s2, h2, w2⟩ := kIncrVV_spec st a.win b.win r.win (vecFn op a.dt) accAdd hna hnb hcb hcr
+    hA.has hB.has hR.has
+  exact ⟨s2, by simp only [h2, bind, Except.bind]; rfl, w2⟩
+
+
+/-! ### iterator path -/
+
+theorem inRange_map_true {l : List Int} {n : Nat} (h : ∀ i ∈ l, 0 ≤ i ∧ i < (n : Int)) :
+    InRange (l.map (·, true)) n := by
+  intro p hp
+  obtain ⟨i, hi, rfl⟩ := List.mem_map.mp hp
+  exact h i hi
+
+theorem map_true_fst (l : List Int) : (l.map (·, true)).map (·.1) = l := by
+  induction l with
+  | nil => rfl
+  | cons x xs ih => simp only [List.map_cons, ih]
+
+theorem getElem?_map_true {l : List Int} {k : Nat} {i : Int} (h : l[k]? = some i) :
+    (l.map (·, true))[k]? = some (i, true) := by
+  simp [List.getElem?_map, h]
+
+theorem of_getElem?_map_true {l : List Int} {k : Nat} {i : Int} {vi : Bool}
+    (h : (l.map (·, true))[k]? = some (i, vi)) : l[k]? = some i := by
+  rw [List.getElem?_map] at h
+  cases hl : l[k]? with
+  | none => simp [hl] at h
+  | some x =>
+    simp only [hl, Option.map_some, Option.some.injEq, Prod.mk.injEq] at h
+    rw [h.1]
+
+/-- `storage.CopyIter` keeps the extent of every buffer -/
+theorem copyIterOffsets_has (st st' : St) (dst : Win) (is js : List Int)
+    (hv : ∀ (k : Nat) i j, is[k]? = some i → js[k]? = some j → (cell st' dst.buf (dst.off + i.toNat)).isSome = true)
+    (hfr : ∀ b' k', (b' ≠ dst.buf ∨ ∀ (k : Nat) i j, is[k]? = some i → js[k]? = some j → k' ≠ dst.off + i.toNat) →
+        cell st' b' k' = cell st b' k')
+    {b off n : Nat} (h : Has st b off n) : Has st' b off n := by
+  intro m hm
+  by_cases hb : b = dst.buf
+  · by_cases hex : ∃ (k : Nat) (i j : Int), is[k]? = some i ∧ js[k]? = some j ∧ off + m = dst.off + i.toNat
+    · obtain ⟨k, i, j, h1, h2, he⟩ := hex
+      rw [hb, he]
+      exact hv k i j h1 h2
+    · rw [hfr _ _ (Or.inr (fun k i j h1 h2 he => hex ⟨k, i, j, h1, h2, he⟩))]; exact h m hm
+  · rw [hfr _ _ (Or.inl hb)]; exact h m hm
+
+theorem engArithVV_safe_iter' (st : St) (op : String) (tc : List String) (a b : Dense) (hc : BinOK tc a b)
+    (hk : (kernelTypes op).contains a.dt = true) (hia : a.requiresIterator = true)
+    (hma : a.mask = none) (hmb : b.mask = none) (hlb : b.win.len ≠ 1)
+    (hoa : ∀ i ∈ a.offsets, 0 ≤ i ∧ i < (a.win.len : Int)) (hob : ∀ j ∈ b.offsets, 0 ≤ j ∧ j < (b.win.len : Int))
+    (hnd : a.offsets.Nodup)
+    (hA : InBuf st a.win.buf a.win.off a.win.len) (hB : InBuf st b.win.buf b.win.off b.win.len) :
+    ∃ st', engArithVV st op tc a b {} = .ok ⟨st', none, .fresh (cloneOf st a)⟩ ∧ st'.mheap = st.mheap ∧
+      (∀ (k : Nat) i j, a.offsets[k]? = some i → b.offsets[k]? = some j →
+        cell st' st.heap.size i.toNat =
+          some (.app2 op (cellD st a.win.buf (a.win.off + i.toNat)) (cellD st b.win.buf (b.win.off + j.toNat)))) ∧
+      (∀ m, m < a.win.len → (∀ (k : Nat) i j, a.offsets[k]? = some i → b.offsets[k]? = some j → m ≠ i.toNat) →
+        cell st' st.heap.size m = some (cellD st a.win.buf (a.win.off + m))) ∧
+      (∀ b' k, b' < st.heap.size → cell st' b' k = cell st b' k) := by
+  rw [engArithVV_iter_safe st op tc a b hc hk hia hma hmb]
+  obtain ⟨s1, h1, hm1, hs1, hv1, hf1⟩ := clone_spec st a hma hA.lt hA.has
+  simp only [h1, bind, Except.bind]
+  rw [eOpIter_VV _ _ _ _ _ _ _ (by simp only [cloneOf]; exact requiresIterator_len hia) hlb]
+  have hHc : Has s1 st.heap.size 0 a.win.len := by
+    intro i hi
+    rw [Nat.zero_add, hv1 i hi]; rfl
+  have hHb : Has s1 b.win.buf b.win.off b.win.len := by
+    intro i hi
+    rw [hf1 _ _ hB.lt]; exact hB.has i hi
+  obtain ⟨s2, h2, hm2, _, hv2, hf2⟩ := kIterVV_spec s1 (cloneOf st a).win b.win (fun x y => .app2 op x y)
+    (a.offsets.map (·, true)) (b.offsets.map (·, true))
+    (by simp only [cloneOf]; exact (Nat.ne_of_lt hB.lt).symm)
+    (inRange_map_true hoa) (inRange_map_true hob) (by rw [map_true_fst]; exact hnd) hHc hHb
+  simp only [cloneOf] at h2 hv2 hf2 ⊢
+  refine ⟨s2, by rw [h2]; rfl, hm2.trans hm1, ?_, ?_, ?_⟩
+  · intro k i j hi hj
+    have := hv2 k i true j true (getElem?_map_true hi) (getElem?_map_true hj) rfl rfl
+    simp only [Nat.zero_add] at this
+    have hlt := hoa i (List.mem_of_getElem? hi)
+    rw [this, cellD_of_some (hv1 i.toNat (by omega))]
+    unfold cellD
+    rw [hf1 _ _ hB.lt]
+  · intro m hm hne
+    rw [hf2 _ _ (Or.inr ?_), hv1 m hm]
+    intro k i vi j vj hi hj _ _
+    rw [Nat.zero_add]
+    exact hne k i j (of_getElem?_map_true hi) (of_getElem?_map_true hj)
+  · intro b' k hb'
+    rw [hf2 _ _ (Or.inl (Nat.ne_of_lt hb')), hf1 b' k hb']
+
+/-- reuse on the iterator path, reuse buffer different from both operand buffers -/
+theorem engArithVV_reuse_iter' (st : St) (op : String) (tc : List String) (a b r : Dense) (hc : BinOK tc a b)
+    (hk : (kernelTypes op).contains a.dt = true) (hia : a.requiresIterator = true)
+    (hma : a.mask = none) (hmb : b.mask = none) (hmr : r.mask = none)
+    (hr : ReuseFits r a.shape a.dt a.ap.o.col)
+    (hnra : r.win.buf ≠ a.win.buf) (hnrb : r.win.buf ≠ b.win.buf)
+    (hlr : r.win.len ≠ 1) (hlb : b.win.len ≠ 1) (hcr : r.win.len ≤ r.win.cap) (hca : a.win.len ≤ a.win.cap)
+    (hor : ∀ i ∈ r.offsets, 0 ≤ i ∧ i < (r.win.len : Int)) (hoa : ∀ i ∈ a.offsets, 0 ≤ i ∧ i < (a.win.len : Int))
+    (hob : ∀ j ∈ b.offsets, 0 ≤ j ∧ j < (b.win.len : Int)) (hnd : r.offsets.Nodup)
+    (hA : InBuf st a.win.buf a.win.off a.win.len) (hB : InBuf st b.win.buf b.win.off b.win.len)
+    (hR : InBuf st r.win.buf r.win.off r.win.len) :
+    ∃ st', engArithVV st op tc a b { reuse := some r } = .ok ⟨st', some r, .reuse⟩ ∧ st'.mheap = st.mheap ∧
+      (∀ (k : Nat) m i j, r.offsets[k]? = some m → a.offsets[k]? = some i → b.offsets[k]? = some j →
+        cell st' r.win.buf (r.win.off + m.toNat) =
+          some (.app2 op (cellD st a.win.buf (a.win.off + i.toNat)) (cellD st b.win.buf (b.win.off + j.toNat)))) ∧
+      (∀ b' k', b' ≠ r.win.buf → cell st' b' k' = cell st b' k') := by
+  rw [engArithVV_iter_reuse st op tc a b r hc hk hia hma hmb hmr hr]
+  obtain ⟨s1, h1, hm1, _, hv1, hf1⟩ := copyIterOffsets_spec st r.win a.win r.offsets a.offsets r.win.len a.win.len
+    hnra hcr hca hor hoa hnd hR.has hA.has
+  simp only [h1, bind, Except.bind]
+  rw [eOpIter_VV _ _ _ _ _ _ _ hlr hlb]
+  have hkeep : ∀ {b off n : Nat}, Has st b off n → Has s1 b off n :=
+    copyIterOffsets_has st s1 r.win r.offsets a.offsets
+      (fun k i j hi hj => by rw [hv1 k i j hi hj]; rfl) hf1
+  obtain ⟨s2, h2, hm2, _, hv2, hf2⟩ := kIterVV_spec s1 r.win b.win (fun x y => .app2 op x y)
+    (r.offsets.map (·, true)) (b.offsets.map (·, true)) hnrb
+    (inRange_map_true hor) (inRange_map_true hob) (by rw [map_true_fst]; exact hnd) (hkeep hR.has) (hkeep hB.has)
+  refine ⟨s2, by rw [h2]; rfl, hm2.trans hm1, ?_, ?_⟩
+  · intro k m i j hm hi hj
+    rw [hv2 k m true j true (getElem?_map_true hm) (getElem?_map_true hj) rfl rfl,
+      cellD_of_some (hv1 k m i hm hi)]
+    unfold cellD
+    rw [hf1 _ _ (Or.inl hnrb.symm)]
+  · intro b' k' hb'
+    rw [hf2 _ _ (Or.inl hb'), hf1 _ _ (Or.inl hb')]
+
+/-! ### `engCmpVV` / `engCmpScalar` -/
+
+theorem engCmpVV_raw_default (st : St) (op : String) (tc : List String) (a b : Dense) (hc : BinOK tc a b)
+    (hia : a.requiresIterator = false) (hib : b.requiresIterator = false) (hord : sameOrd a b = true) :
+    engCmpVV st op tc a b {} = (do
+      let s ← eCmp (allocZero st (denseLen a.shape)) a.win b.win (freshOf st "b" a.shape).win (fun x y => .app2 op x y)
+      pure ⟨s, none, .fresh (freshOf st "b" a.shape)⟩) := by
+  unfold engCmpVV
+  simp only [hc.ta, hc.tb, hc.ne, hc.sh, hfo_none, hia, hib, hord, newDenseZero_eq, bind, Except.bind, pure,
+    Except.pure, Bool.not_true, Bool.false_eq_true, if_false, Bool.or_false, Bool.and_false, Bool.not_false,
+    Bool.and_true, if_true, Bool.false_and, Bool.true_and, Bool.or_self, Bool.false_or]
+
+theorem engCmpVV_raw_same (st : St) (op : String) (tc : List String) (a b : Dense) (hc : BinOK tc a b)
+    (hia : a.requiresIterator = false) (hib : b.requiresIterator = false) (hord : sameOrd a b = true) :
+    engCmpVV st op tc a b { same := true } = (do
+      let s ← Dense.rawCopy (allocZero st (denseLen a.shape)) (freshOf st a.dt a.shape).win a.win
+      let s ← eOp s (freshOf st a.dt a.shape).win b.win (fun x y => .app2 (op ++ ".same") x y)
+      pure ⟨s, none, .fresh (freshOf st a.dt a.shape)⟩) := by
+  unfold engCmpVV
+  simp only [hc.ta, hc.tb, hc.ne, hc.sh, hfo_none, hia, hib, hord, newDenseZero_eq, bind, Except.bind, pure,
+    Except.pure, Bool.not_true, Bool.false_eq_true, if_false, Bool.or_false, Bool.and_false, Bool.not_false,
+    Bool.and_true, if_true, Bool.false_and, Bool.true_and, Bool.or_self, Bool.false_or, Bool.true_or]
+
+theorem engCmpVV_raw_unsafe (st : St) (op : String) (tc : List String) (a b : Dense) (hc : BinOK tc a b)
+    (hia : a.requiresIterator = false) (hib : b.requiresIterator = false) (hord : sameOrd a b = true) :
+    engCmpVV st op tc a b { unsafe_ := true } = (do
+      let s ← eOp st a.win b.win (fun x y => .app2 (op ++ ".same") x y)
+      pure ⟨s, none, .a⟩) := by
+  unfold engCmpVV
+  simp only [hc.ta, hc.tb, hc.ne, hc.sh, hfo_none, hia, hib, hord, newDenseZero_eq, bind, Except.bind, pure,
+    Except.pure, Bool.not_true, Bool.false_eq_true, if_false, Bool.or_false, Bool.and_false, Bool.not_false,
+    Bool.and_true, if_true, Bool.false_and, Bool.true_and, Bool.or_self, Bool.false_or, Bool.or_true]
+
+
+/-- default mode: a fresh *bool* tensor of `a`'s shape whose cell `i` is `op a[i] b[i]` -/
+theorem engCmpVV_default' (st : St) (op : String) (tc : List String) (a b : Dense) (hc : BinOK tc a b)
+    (hia : a.requiresIterator = false) (hib : b.requiresIterator = false) (hord : sameOrd a b = true)
+    (hlen : a.win.len = b.win.len) (hcap : a.win.len ≤ b.win.cap) (hsz : a.win.len ≤ denseLen a.shape)
+    (hA : InBuf st a.win.buf a.win.off a.win.len) (hB : InBuf st b.win.buf b.win.off a.win.len) :
+    ∃ st', engCmpVV st op tc a b {} = .ok ⟨st', none, .fresh (freshOf st "b" a.shape)⟩ ∧ st'.mheap = st.mheap ∧
+      (∀ i, i < a.win.len → cell st' st.heap.size i =
+        some (.app2 op (cellD st a.win.buf (a.win.off + i)) (cellD st b.win.buf (b.win.off + i)))) ∧
+      (∀ b' k, b' < st.heap.size → cell st' b' k = cell st b' k) := by
+  rw [engCmpVV_raw_default st op tc a b hc hia hib hord, eCmp_VV _ _ _ _ _ (by rw [hlen])]
+  obtain ⟨s2, h2, w2⟩ := kCmpVV_spec (allocZero st (denseLen a.shape)) a.win b.win (freshOf st "b" a.shape).win
+    (fun x y => .app2 op x y)
+    (by simp only [freshOf]; exact Nat.ne_of_lt hA.lt) (by simp only [freshOf]; exact Nat.ne_of_lt hB.lt)
+    hcap (by simp only [freshOf]; exact hsz)
+    (hA.has.allocZero hA.lt _) (hB.has.allocZero hB.lt _)
+    (by simp only [freshOf]; exact (allocZero_has st _).mono hsz)
+  simp only [freshOf] at h2 w2 ⊢
+  refine ⟨s2, by simp only [h2, bind, Except.bind]; rfl, w2.mheap, ?_, ?_⟩
+  · intro i hi
+    have := w2.val i hi
+    simp only [Nat.zero_add] at this
+    rw [this, allocZero_cellD_lt _ _ _ _ hA.lt, allocZero_cellD_lt _ _ _ _ hB.lt]
+  · intro b' k hb'
+    rw [w2.other (Nat.ne_of_lt hb'), allocZero_cell_lt _ _ _ _ hb']
+
+/-- `AsSameType`: a fresh tensor of the operand type whose cell `i` is the 1/0 form `op.same a[i] b[i]` -/
+theorem engCmpVV_same' (st : St) (op : String) (tc : List String) (a b : Dense) (hc : BinOK tc a b)
+    (hia : a.requiresIterator = false) (hib : b.requiresIterator = false) (hord : sameOrd a b = true)
+    (hlen : a.win.len = b.win.len) (hcap : a.win.len ≤ b.win.cap) (hsz : a.win.len = denseLen a.shape)
+    (hA : InBuf st a.win.buf a.win.off a.win.len) (hB : InBuf st b.win.buf b.win.off a.win.len) :
+    ∃ st', engCmpVV st op tc a b { same := true } = .ok ⟨st', none, .fresh (freshOf st a.dt a.shape)⟩ ∧
+      st'.mheap = st.mheap ∧
+      (∀ i, i < a.win.len → cell st' st.heap.size i =
+        some (.app2 (op ++ ".same") (cellD st a.win.buf (a.win.off + i)) (cellD st b.win.buf (b.win.off + i)))) ∧
+      (∀ b' k, b' < st.heap.size → cell st' b' k = cell st b' k) := by
+  rw [engCmpVV_raw_same st op tc a b hc hia hib hord]
+  have hmin : min (freshOf st a.dt a.shape).win.len a.win.len = a.win.len := by
+    simp only [freshOf, ← hsz, Nat.min_self]
+  obtain ⟨s1, h1, w1⟩ := rawCopy_total (allocZero st (denseLen a.shape)) (freshOf st a.dt a.shape).win a.win
+    (by rw [hmin]; exact hA.has.allocZero hA.lt _)
+    (by rw [hmin]; simp only [freshOf]; rw [← hsz]; exact allocZero_has st _)
+  rw [hmin] at w1
+  simp only [h1, bind, Except.bind]
+  rw [eOp_VV _ _ _ _ _ (by simp only [freshOf, ← hsz, hlen])]
+  obtain ⟨s2, h2, w2⟩ := kVV_spec s1 (freshOf st a.dt a.shape).win b.win (fun x y => .app2 (op ++ ".same") x y)
+    (by simp only [freshOf]; exact (Nat.ne_of_lt hB.lt).symm)
+    (by simp only [freshOf, ← hsz]; exact hcap)
+    (by simp only [freshOf, ← hsz]; exact w1.has (by rw [hsz]; exact allocZero_has st _))
+    (by simp only [freshOf, ← hsz]; exact w1.has (hB.has.allocZero hB.lt _))
+  simp only [freshOf, ← hsz] at h2 w1 w2 ⊢
+  refine ⟨s2, by rw [h2]; rfl, w2.mheap.trans w1.mheap, ?_, ?_⟩
+  · intro i hi
+    have := w2.val i hi
+    simp only [Nat.zero_add] at this
+    rw [this, cellD_of_some (by simpa using w1.val i hi),
+      w1.cellD_other (Nat.ne_of_lt hB.lt), allocZero_cellD_lt _ _ _ _ hA.lt, allocZero_cellD_lt _ _ _ _ hB.lt]
+  · intro b' k hb'
+    rw [w2.other (Nat.ne_of_lt hb'), w1.other (Nat.ne_of_lt hb'), allocZero_cell_lt _ _ _ _ hb']
+
+/-- `UseUnsafe()`: the 1/0 result of the operand type overwrites `a`, which is returned -/
+theorem engCmpVV_unsafe' (st : St) (op : String) (tc : List String) (a b : Dense) (hc : BinOK tc a b)
+    (hia : a.requiresIterator = false) (hib : b.requiresIterator = false) (hord : sameOrd a b = true)
+    (hne : a.win.buf ≠ b.win.buf) (hlen : a.win.len = b.win.len) (hcap : a.win.len ≤ b.win.cap)
+    (hA : InBuf st a.win.buf a.win.off a.win.len) (hB : InBuf st b.win.buf b.win.off a.win.len) :
+    ∃ st', engCmpVV st op tc a b { unsafe_ := true } = .ok ⟨st', none, .a⟩ ∧
+      Writes st st' a.win.buf a.win.off a.win.len (fun i =>
+        .app2 (op ++ ".same") (cellD st a.win.buf (a.win.off + i)) (cellD st b.win.buf (b.win.off + i))) := by
+  rw [engCmpVV_raw_unsafe st op tc a b hc hia hib hord, eOp_VV _ _ _ _ _ (by rw [hlen])]
+  obtain ⟨s2, h2, w2⟩ := kVV_spec st a.win b.win (fun x y => .app2 (op ++ ".same") x y) hne hcap hA.has hB.has
+  exact ⟨s2, by simp only [h2, bind, Except.bind]; rfl, w2⟩
+
+theorem engCmpVV_refuses' (st : St) (op : String) (tc : List String) (a b : Dense) (o : Opts)
+    (h : tc.contains a.dt = false) : engCmpVV st op tc a b o = .error (.err "typeclass a") := by
+  unfold engCmpVV
+  simp only [h, bind, Except.bind, Bool.not_false, if_true, throwErr]
+
+theorem engCmpScalar_raw_default_right (st : St) (op : String) (tc : List String) (t : Dense) (sc : ScalarArg)
+    (hta : tc.contains t.dt = true) (hdt : t.dt = sc.dt) (hit : t.requiresIterator = false) :
+    engCmpScalar st op tc t sc false {} = (do
+      let s ← eCmp (allocZero st (denseLen t.shape)) sc.win t.win (freshOf st "b" t.shape).win (fun x y => .app2 op x y)
+      pure ⟨s, none, .fresh (freshOf st "b" t.shape)⟩) := by
+  have hne : (t.dt != sc.dt) = false := by simp [hdt]
+  unfold engCmpScalar
+  simp only [hta, hne, hfo_none, hit, newDenseZero_eq, bind, Except.bind, pure,
+    Except.pure, Bool.not_true, Bool.false_eq_true, if_false, Bool.or_false, Bool.and_false, Bool.not_false,
+    Bool.and_true, if_true, Bool.false_and, Bool.true_and, Bool.or_self, Bool.false_or]
+
+/-- scalar on the LEFT (`leftTensor = false`), default mode: cell `i` of the fresh bool tensor is `op s t[i]` -/
+theorem engCmpScalar_left' (st : St) (op : String) (tc : List String) (t : Dense) (sc : ScalarArg)
+    (hta : tc.contains t.dt = true) (hdt : t.dt = sc.dt) (hit : t.requiresIterator = false)
+    (hs1 : sc.win.len = 1) (ht1 : t.win.len ≠ 1) (hsz : t.win.len = denseLen t.shape)
+    (hS : InBuf st sc.win.buf sc.win.off 1) (hT : InBuf st t.win.buf t.win.off t.win.len) :
+    ∃ st', engCmpScalar st op tc t sc false {} = .ok ⟨st', none, .fresh (freshOf st "b" t.shape)⟩ ∧
+      st'.mheap = st.mheap ∧
+      (∀ i, i < t.win.len → cell st' st.heap.size i =
+        some (.app2 op (cellD st sc.win.buf sc.win.off) (cellD st t.win.buf (t.win.off + i)))) ∧
+      (∀ b' k, b' < st.heap.size → cell st' b' k = cell st b' k) := by
+  rw [engCmpScalar_raw_default_right st op tc t sc hta hdt hit,
+    eCmp_SV _ _ _ _ _ hs1 ht1 (by simp only [freshOf, ← hsz]; exact ht1)]
+  have hs0 : cell (allocZero st (denseLen t.shape)) sc.win.buf sc.win.off = some (cellD st sc.win.buf sc.win.off) := by
+    rw [allocZero_cell_lt _ _ _ _ hS.lt]
+    exact cell_some_cellD (by simpa using hS.has 0 (by omega))
+  simp only [rd0_of_cell hs0, bind, Except.bind]
+  obtain ⟨s2, h2, w2⟩ := kRecvSV_spec (allocZero st (denseLen t.shape)) (cellD st sc.win.buf sc.win.off) t.win
+    (freshOf st "b" t.shape).win (fun x y => .app2 op x y)
+    (by simp only [freshOf]; exact Nat.ne_of_lt hT.lt)
+    (by simp only [freshOf, ← hsz]; exact Nat.le_refl _)
+    (by simp only [freshOf, ← hsz]; exact hT.has.allocZero hT.lt _)
+    (by simp only [freshOf]; exact allocZero_has st _)
+  simp only [freshOf, ← hsz] at h2 w2 ⊢
+  refine ⟨s2, by rw [h2]; rfl, w2.mheap, ?_, ?_⟩
+  · intro i hi
+    have := w2.val i hi
+    simp only [Nat.zero_add] at this
+    rw [this, allocZero_cellD_lt _ _ _ _ hT.lt]
+  · intro b' k hb'
+    rw [w2.other (Nat.ne_of_lt hb'), allocZero_cell_lt _ _ _ _ hb']
+
+/-! ### `engUnary`, `engMap` -/
+
+theorem engUnary_raw_safe (st : St) (g : UnF) (tc kt : List String) (strict : Bool) (a : Dense)
+    (hta : tc.contains a.dt = true) (hk : kt.contains a.dt = true) (hia : a.requiresIterator = false) :
+    engUnary st g tc kt strict a {} = (do
+      let (s, c) ← a.clone st
+      let s ← kUn s c.win g
+      pure ⟨s, none, .fresh c⟩) := by
+  unfold engUnary
+  simp only [hta, hk, hfo_none, hia, bind, Except.bind, pure, Except.pure, Bool.not_true, Bool.false_eq_true,
+    if_false, Bool.or_false, Bool.not_false, if_true]
+
+theorem engUnary_raw_unsafe (st : St) (g : UnF) (tc kt : List String) (strict : Bool) (a : Dense)
+    (hta : tc.contains a.dt = true) (hk : kt.contains a.dt = true) (hia : a.requiresIterator = false) :
+    engUnary st g tc kt strict a { unsafe_ := true } = (do
+      let s ← kUn st a.win g
+      pure ⟨s, none, .a⟩) := by
+  unfold engUnary
+  simp only [hta, hk, hfo_none, hia, bind, Except.bind, pure, Except.pure, Bool.not_true, Bool.false_eq_true,
+    if_false, Bool.or_false, Bool.not_false, if_true]
+
+theorem engUnary_raw_reuse (st : St) (g : UnF) (tc kt : List String) (strict : Bool) (a r : Dense)
+    (hta : tc.contains a.dt = true) (hk : kt.contains a.dt = true) (hia : a.requiresIterator = false)
+    (hir : r.requiresIterator = false) (hr : ReuseFits r a.shape a.dt a.ap.o.col) :
+    engUnary st g tc kt strict a { reuse := some r } = (do
+      let s ← Dense.rawCopy st r.win a.win
+      let s ← kUn s r.win g
+      pure ⟨s, some r, .reuse⟩) := by
+  unfold engUnary
+  simp only [hta, hk, hfo_reuse _ _ _ _ _ _ hr, hia, hir, bind, Except.bind, pure, Except.pure, Bool.not_true,
+    Bool.false_eq_true, if_false, Bool.or_false, Bool.not_false, if_true]
+
+theorem engUnary_refuses' (st : St) (g : UnF) (tc kt : List String) (strict : Bool) (a : Dense) (o : Opts)
+    (h : tc.contains a.dt = false) : engUnary st g tc kt strict a o = .error (.err "typeclass a") := by
+  unfold engUnary
+  simp only [h, bind, Except.bind, Bool.not_false, if_true, throwErr]
+
+theorem engUnary_safe' (st : St) (g : UnF) (tc kt : List String) (strict : Bool) (a : Dense)
+    (hta : tc.contains a.dt = true) (hk : kt.contains a.dt = true) (hia : a.requiresIterator = false)
+    (hm : a.mask = none) (hA : InBuf st a.win.buf a.win.off a.win.len) :
+    ∃ st', engUnary st g tc kt strict a {} = .ok ⟨st', none, .fresh (cloneOf st a)⟩ ∧ st'.mheap = st.mheap ∧
+      (∀ i, i < a.win.len → cell st' st.heap.size i = some (g (cellD st a.win.buf (a.win.off + i)))) ∧
+      (∀ b' k, b' < st.heap.size → cell st' b' k = cell st b' k) := by
+  rw [engUnary_raw_safe st g tc kt strict a hta hk hia]
+  obtain ⟨s1, h1, hm1, hs1, hv1, hf1⟩ := clone_spec st a hm hA.lt hA.has
+  simp only [h1, bind, Except.bind]
+  have hHc : Has s1 st.heap.size 0 a.win.len := by
+    intro i hi
+    rw [Nat.zero_add, hv1 i hi]; rfl
+  obtain ⟨s2, h2, w2⟩ := kUn_spec s1 (cloneOf st a).win g hHc
+  simp only [cloneOf] at h2 w2 ⊢
+  refine ⟨s2, by rw [h2]; rfl, w2.mheap.trans hm1, ?_, ?_⟩
+  · intro i hi
+    have := w2.val i hi
+    simp only [Nat.zero_add] at this
+    rw [this, cellD_of_some (hv1 i hi)]
+  · intro b' k hb'
+    rw [w2.other (Nat.ne_of_lt hb'), hf1 b' k hb']
+
+theorem engUnary_unsafe' (st : St) (g : UnF) (tc kt : List String) (strict : Bool) (a : Dense)
+    (hta : tc.contains a.dt = true) (hk : kt.contains a.dt = true) (hia : a.requiresIterator = false)
+    (hA : InBuf st a.win.buf a.win.off a.win.len) :
+    ∃ st', engUnary st g tc kt strict a { unsafe_ := true } = .ok ⟨st', none, .a⟩ ∧
+      Writes st st' a.win.buf a.win.off a.win.len (fun i => g (cellD st a.win.buf (a.win.off + i))) := by
+  rw [engUnary_raw_unsafe st g tc kt strict a hta hk hia]
+  obtain ⟨s2, h2, w2⟩ := kUn_spec st a.win g hA.has
+  exact ⟨s2, by simp only [h2, bind, Except.bind]; rfl, w2⟩
+
+theorem engUnary_reuse' (st : St) (g : UnF) (tc kt : List String) (strict : Bool) (a r : Dense)
+    (hta : tc.contains a.dt = true) (hk : kt.contains a.dt = true) (hia : a.requiresIterator = false)
+    (hir : r.requiresIterator = false) (hr : ReuseFits r a.shape a.dt a.ap.o.col)
+    (hlen : r.win.len = a.win.len)
+    (hA : InBuf st a.win.buf a.win.off a.win.len) (hR : InBuf st r.win.buf r.win.off r.win.len) :
+    ∃ st', engUnary st g tc kt strict a { reuse := some r } = .ok ⟨st', some r, .reuse⟩ ∧
+      Writes st st' r.win.buf r.win.off r.win.len (fun i => g (cellD st a.win.buf (a.win.off + i))) := by
+  rw [engUnary_raw_reuse st g tc kt strict a r hta hk hia hir hr]
+  have hmin : min r.win.len a.win.len = r.win.len := by rw [hlen, Nat.min_self]
+  obtain ⟨s1, h1, w1⟩ := rawCopy_total st r.win a.win (by rw [hmin, hlen]; exact hA.has) (by rw [hmin]; exact hR.has)
+  rw [hmin] at w1
+  obtain ⟨s2, h2, w2⟩ := kUn_spec s1 r.win g (w1.has hR.has)
+  refine ⟨s2, by simp only [h1, h2, bind, Except.bind]; rfl, w2.mheap.trans w1.mheap, w2.size.trans w1.size, ?_, ?_⟩
+  · intro i hi
+    rw [w2.val i hi, cellD_of_some (w1.val i hi)]
+  · intro b' k hbk
+    rw [w2.frame b' k hbk, w1.frame b' k hbk]
+
+
+theorem cloneOf_requiresIterator (st : St) (a : Dense) (hm : a.mask = none) :
+    (cloneOf st a).requiresIterator = a.requiresIterator := by
+  simp [Dense.requiresIterator, cloneOf, hm]
+
+/-- safe `Map` on a plain tensor: `g` is applied to a clone of the operand's data -/
+theorem engMap_safe' (st : St) (g : UnF) (mt : List String) (a : Dense)
+    (hmt : mt.contains a.dt = true) (hmz : a.isMaterializable = false) (hia : a.requiresIterator = false)
+    (hm : a.mask = none) (hsz : (a.win.len : Int) = totalSize a.shape)
+    (hA : InBuf st a.win.buf a.win.off a.win.len) :
+    ∃ st' c, engMap st g mt a {} = .ok ⟨st', none, .fresh c⟩ ∧ st'.mheap = st.mheap ∧
+      c.win = ⟨st.heap.size, 0, a.win.len, a.win.len⟩ ∧ c.ap.shape = a.shape ∧ c.dt = a.dt ∧
+      (∀ i, i < a.win.len → cell st' st.heap.size i = some (g (cellD st a.win.buf (a.win.off + i)))) ∧
+      (∀ b' k, b' < st.heap.size → cell st' b' k = cell st b' k) := by
+  obtain ⟨s1, h1, hm1, hs1, hv1, hf1⟩ := clone_spec st a hm hA.lt hA.has
+  have hHc : Has s1 st.heap.size 0 a.win.len := by
+    intro i hi
+    rw [Nat.zero_add, hv1 i hi]; rfl
+  obtain ⟨s2, h2, w2⟩ := kUn_spec s1 (cloneOf st a).win g hHc
+  have hic : (cloneOf st a).requiresIterator = false := by rw [cloneOf_requiresIterator st a hm, hia]
+  have hne : ((a.win.len : Int) != totalSize a.shape) = false := by simp [hsz]
+  have hcl : (cloneOf st a).win.len = a.win.len := rfl
+  have hcv : (cloneOf st a).view = false := rfl
+  unfold engMap
+  simp only [hfo_none, materialize_self' st a hmz, h1, hia, hic, hmt, h2, hcl, hcv, hne, bind, Except.bind, pure, Except.pure,
+    Bool.not_true, Bool.false_eq_true, if_false, Bool.or_false, Bool.not_false, if_true, Option.getD_some,
+    Bool.false_and, Bool.and_false, Bool.true_and]
+  simp only [cloneOf] at w2
+  refine ⟨s2, _, rfl, w2.mheap.trans hm1, rfl, rfl, rfl, ?_, ?_⟩
+  · intro i hi
+    have := w2.val i hi
+    simp only [Nat.zero_add] at this
+    rw [this, cellD_of_some (hv1 i hi)]
+  · intro b' k hb'
+    rw [w2.other (Nat.ne_of_lt hb'), hf1 b' k hb']
+
+
+/-- `Map` with a reuse tensor (finding F34): `g` is applied to the reuse tensor's *own* data; the
+    operand's data is never read. -/
+theorem engMap_reuse_actual' (st : St) (g : UnF) (mt : List String) (a r : Dense)
+    (hmt : mt.contains a.dt = true) (hia : a.requiresIterator = false) (hir : r.requiresIterator = false)
+    (hr : ReuseFits r a.shape a.dt a.ap.o.col) (hts : totalSize r.shape = totalSize a.shape)
+    (hR : InBuf st r.win.buf r.win.off r.win.len) :
+    ∃ st' r', engMap st g mt a { reuse := some r } = .ok ⟨st', some r', .reuse⟩ ∧ r'.win = r.win ∧
+      Writes st st' r.win.buf r.win.off r.win.len (fun i => g (cellD st r.win.buf (r.win.off + i))) := by
+  obtain ⟨s2, h2, w2⟩ := kUn_spec st r.win g hR.has
+  have hne : ((r.win.len : Int) != totalSize a.shape) = false := by simp [hr.len]
+  have hts' : (totalSize a.shape != totalSize r.shape) = false := by simp [hts]
+  unfold engMap
+  simp only [hfo_reuse _ _ _ _ _ _ hr, hts', hia, hir, hmt, h2, hne, bind, Except.bind, pure, Except.pure,
+    Bool.not_true, Bool.false_eq_true, if_false, Bool.or_false, Bool.not_false, if_true, Option.getD_some,
+    Bool.false_and, Bool.and_false, Bool.true_and]
+  exact ⟨s2, _, rfl, rfl, w2⟩
+
+/-! ### link with C05: iterator offsets are the row-major logical offsets -/
+
+/-- the iterator of a well-formed pattern yields the offsets of the coordinates in row-major order -/
+theorem offsets_rowmajor (ap : AP) (hl : ap.strides.length = ap.shape.length) (hp : ∀ d ∈ ap.shape, 0 < d) :
+    FlatIt.offsets ap = (allCoords ap.shape).map (fun c => dot c ap.strides) := by
+  by_cases hs : ap.shape = []
+  · unfold FlatIt.offsets
+    rw [scalar_run_full ap hs]
+    simp [hs, allCoords, dot]
+  · by_cases hv : ap.isVectorLike = true
+    · have hv' := hv
+      simp only [AP.isVectorLike, Bool.and_eq_true] at hv'
+      unfold FlatIt.offsets totalSize
+      rw [vec_run_full ap hp hv hs, veclike_spec ap.shape ap.strides hl hp hv'.1 hv'.2]
+    · unfold FlatIt.offsets totalSize
+      rw [nd_run_full ap hl hp (by simpa using hv), spec_eq ap.shape ap.strides hp]
+
+/-- **coordinate-wise**: the two-iterator kernel driven by the iterators of two well-formed patterns
+    of the same shape combines, for every coordinate `c`, the element of `a` at `c` with the element of
+    `b` at `c` (whatever the strides: transposes, views, …) and stores it at `a`'s cell for `c`. -/
+theorem kIterVV_coordwise' (st : St) (a b : Win) (f : BinF) (pa pb : AP) (hsh : pa.shape = pb.shape)
+    (hla : pa.strides.length = pa.shape.length) (hlb : pb.strides.length = pb.shape.length)
+    (hp : ∀ d ∈ pa.shape, 0 < d) (hne : a.buf ≠ b.buf)
+    (hoa : ∀ i ∈ FlatIt.offsets pa, 0 ≤ i ∧ i < (a.len : Int)) (hob : ∀ j ∈ FlatIt.offsets pb, 0 ≤ j ∧ j < (b.len : Int))
+    (hnd : (FlatIt.offsets pa).Nodup)
+    (ha : Has st a.buf a.off a.len) (hb : Has st b.buf b.off b.len) :
+    ∃ st', kIterVV st a b f ((FlatIt.offsets pa).map (·, true)) ((FlatIt.offsets pb).map (·, true)) = .ok st' ∧
+      st'.mheap = st.mheap ∧
+      (∀ c ∈ allCoords pa.shape,
+        cell st' a.buf (a.off + (dot c pa.strides).toNat) =
+          some (f (cellD st a.buf (a.off + (dot c pa.strides).toNat))
+                  (cellD st b.buf (b.off + (dot c pb.strides).toNat)))) ∧
+      (∀ b' k', (b' ≠ a.buf ∨ ∀ c ∈ allCoords pa.shape, k' ≠ a.off + (dot c pa.strides).toNat) →
+        cell st' b' k' = cell st b' k') := by
+  obtain ⟨st', h, hm, _, hv, hfr⟩ := kIterVV_spec st a b f _ _ hne (inRange_map_true hoa) (inRange_map_true hob)
+    (by rw [map_true_fst]; exact hnd) ha hb
+  have ea := offsets_rowmajor pa hla hp
+  have eb := offsets_rowmajor pb hlb (hsh ▸ hp)
+  refine ⟨st', h, hm, ?_, ?_⟩
+  · intro c hc
+    obtain ⟨k, hk⟩ := List.mem_iff_getElem?.mp hc
+    have h1 : (FlatIt.offsets pa)[k]? = some (dot c pa.strides) := by
+      rw [ea, List.getElem?_map, hk]; rfl
+    have h2 : (FlatIt.offsets pb)[k]? = some (dot c pb.strides) := by
+      rw [eb, ← hsh, List.getElem?_map, hk]; rfl
+    exact hv k _ true _ true (getElem?_map_true h1) (getElem?_map_true h2) rfl rfl
+  · intro b' k' hbk
+    apply hfr
+    rcases hbk with hb' | hk
+    · exact Or.inl hb'
+    · refine Or.inr ?_
+      intro k i vi j vj hi _ _ _
+      have hi' := of_getElem?_map_true hi
+      rw [ea, List.getElem?_map] at hi'
+      cases hck : (allCoords pa.shape)[k]? with
+      | none => simp [hck] at hi'
+      | some c =>
+        simp only [hck, Option.map_some, Option.some.injEq] at hi'
+        rw [← hi']
+        exact hk c (List.mem_of_getElem? hck)
+
+
+/-! ### scalar variants of the three-iterator kernels -/
+
+def stepIter3SV (a0 : Val) (b d : Win) (f g : BinF) (s : St) (x : (Int × Bool) × (Int × Bool)) : Res St :=
+  if x.1.2 && x.2.2 then do s.wr d d.len x.2.1 (g (← s.rd d d.len x.2.1) (f a0 (← s.rd b b.len x.1.1))) else pure s
+
+theorem kIter3SV_fold (a0 : Val) (b d : Win) (f g : BinF) : ∀ (ib ik : ItS) (s : St),
+    kIter3SV s a0 b d f g ib ik = (ib.zip ik).foldlM (stepIter3SV a0 b d f g) s := by
+  intro ib
+  induction ib with
+  | nil => intro ik s; simp [kIter3SV]; rfl
+  | cons p ib ih =>
+    intro ik s
+    cases ik with
+    | nil => simp [kIter3SV]; rfl
+    | cons q ik =>
+      obtain ⟨i, vi⟩ := p
+      obtain ⟨j, vj⟩ := q
+      simp only [kIter3SV, List.zip_cons_cons, List.foldlM_cons, ih]
+      rfl
+
+theorem kIter3SV_spec (st : St) (a0 : Val) (b d : Win) (f g : BinF) (ib ik : ItS) (hnb : b.buf ≠ d.buf)
+    (hrb : InRange ib b.len) (hrk : InRange ik d.len) (hnd : (ik.map (·.1)).Nodup)
+    (hb : Has st b.buf b.off b.len) (hd : Has st d.buf d.off d.len) :
+    ∃ st', kIter3SV st a0 b d f g ib ik = .ok st' ∧ st'.mheap = st.mheap ∧ st'.heap.size = st.heap.size ∧
+      (∀ (k : Nat) j vj m vm, ib[k]? = some (j, vj) → ik[k]? = some (m, vm) → vj = true → vm = true →
+        cell st' d.buf (d.off + m.toNat) =
+          some (g (cellD st d.buf (d.off + m.toNat)) (f a0 (cellD st b.buf (b.off + j.toNat))))) ∧
+      (∀ b' k', (b' ≠ d.buf ∨ ∀ (k : Nat) j vj m vm, ib[k]? = some (j, vj) → ik[k]? = some (m, vm) →
+          vj = true → vm = true → k' ≠ d.off + m.toNat) → cell st' b' k' = cell st b' k') := by
+  rw [kIter3SV_fold]
+  obtain ⟨st', hf, hm, hs, hv, hfr⟩ := wrLoop d d.len (fun x : (Int × Bool) × (Int × Bool) => x.2.1)
+    (fun x => x.1.2 && x.2.2)
+    (fun x => g (cellD st d.buf (d.off + x.2.1.toNat)) (f a0 (cellD st b.buf (b.off + x.1.1.toNat))))
+    (stepIter3SV a0 b d f g) (ib.zip ik) st
+    (by
+      intro x hx _
+      have := hrk x.2 (List.of_mem_zip hx).2
+      exact ⟨this.1, this.2, hd.at this.1 this.2⟩)
+    ((pairwise_zip_snd ib ik (nodup_fst_pairwise hnd)).imp (fun h _ _ => h))
+    (by
+      intro s x hx hax hag
+      have h1 := hrb x.1 (List.of_mem_zip hx).1
+      have h2 := hrk x.2 (List.of_mem_zip hx).2
+      unfold stepIter3SV
+      simp only [hax, if_true, bind, Except.bind]
+      rw [rd_agree_self hag d.len h2.1 h2.2 (hd.at h2.1 h2.2),
+        rd_agree_other hag b b.len x.1.1 h1.1 h1.2 hnb (hb.at h1.1 h1.2)])
+    (by
+      intro s x _ hax
+      unfold stepIter3SV
+      simp only [hax]
+      rfl)
+  refine ⟨st', hf, hm, hs, ?_, ?_⟩
+  · intro k j vj m vm h1 h2 hvj hvm
+    exact hv ((j, vj), (m, vm)) (mem_zip_iff.mpr ⟨k, h1, h2⟩) (by simp [hvj, hvm])
+  · intro b' k' hbk
+    apply hfr
+    rcases hbk with hb' | hk
+    · exact Or.inl hb'
+    · refine Or.inr ?_
+      intro x hx hax
+      obtain ⟨k, h1, h2⟩ := mem_zip_iff.mp hx
+      simp only [Bool.and_eq_true] at hax
+      exact hk k x.1.1 x.1.2 x.2.1 x.2.2 h1 h2 hax.1 hax.2
+
+def stepIter3VS (a : Win) (b0 : Val) (d : Win) (f g : BinF) (s : St) (x : (Int × Bool) × (Int × Bool)) : Res St :=
+  if x.1.2 && x.2.2 then do s.wr d d.len x.2.1 (g (← s.rd d d.len x.2.1) (f (← s.rd a a.len x.1.1) b0)) else pure s
+
+theorem kIter3VS_fold (a : Win) (b0 : Val) (d : Win) (f g : BinF) : ∀ (ia ik : ItS) (s : St),
+    kIter3VS s a b0 d f g ia ik = (ia.zip ik).foldlM (stepIter3VS a b0 d f g) s := by
+  intro ia
+  induction ia with
+  | nil => intro ik s; simp [kIter3VS]; rfl
+  | cons p ia ih =>
+    intro ik s
+    cases ik with
+    | nil => simp [kIter3VS]; rfl
+    | cons q ik =>
+      obtain ⟨i, vi⟩ := p
+      obtain ⟨j, vj⟩ := q
+      simp only [kIter3VS, List.zip_cons_cons, List.foldlM_cons, ih]
+      rfl
+
+theorem kIter3VS_spec (st : St) (a : Win) (b0 : Val) (d : Win) (f g : BinF) (ia ik : ItS) (hna : a.buf ≠ d.buf)
+    (hra : InRange ia a.len) (hrk : InRange ik d.len) (hnd : (ik.map (·.1)).Nodup)
+    (ha : Has st a.buf a.off a.len) (hd : Has st d.buf d.off d.len) :
+    ∃ st', kIter3VS st a b0 d f g ia ik = .ok st' ∧ st'.mheap = st.mheap ∧ st'.heap.size = st.heap.size ∧
+      (∀ (k : Nat) i vi m vm, ia[k]? = some (i, vi) → ik[k]? = some (m, vm) → vi = true → vm = true →
+        cell st' d.buf (d.off + m.toNat) =
+          some (g (cellD st d.buf (d.off + m.toNat)) (f (cellD st a.buf (a.off + i.toNat)) b0))) ∧
+      (∀ b' k', (b' ≠ d.buf ∨ ∀ (k : Nat) i vi m vm, ia[k]? = some (i, vi) → ik[k]? = some (m, vm) →
+          vi = true → vm = true → k' ≠ d.off + m.toNat) → cell st' b' k' = cell st b' k') := by
+  rw [kIter3VS_fold]
+  obtain ⟨st', hf, hm, hs, hv, hfr⟩ := wrLoop d d.len (fun x : (Int × Bool) × (Int × Bool) => x.2.1)
+    (fun x => x.1.2 && x.2.2)
+    (fun x => g (cellD st d.buf (d.off + x.2.1.toNat)) (f (cellD st a.buf (a.off + x.1.1.toNat)) b0))
+    (stepIter3VS a b0 d f g) (ia.zip ik) st
+    (by
+      intro x hx _
+      have := hrk x.2 (List.of_mem_zip hx).2
+      exact ⟨this.1, this.2, hd.at this.1 this.2⟩)
+    ((pairwise_zip_snd ia ik (nodup_fst_pairwise hnd)).imp (fun h _ _ => h))
+    (by
+      intro s x hx hax hag
+      have h1 := hra x.1 (List.of_mem_zip hx).1
+      have h2 := hrk x.2 (List.of_mem_zip hx).2
+      unfold stepIter3VS
+      simp only [hax, if_true, bind, Except.bind]
+      rw [rd_agree_self hag d.len h2.1 h2.2 (hd.at h2.1 h2.2),
+        rd_agree_other hag a a.len x.1.1 h1.1 h1.2 hna (ha.at h1.1 h1.2)])
+    (by
+      intro s x _ hax
+      unfold stepIter3VS
+      simp only [hax]
+      rfl)
+  refine ⟨st', hf, hm, hs, ?_, ?_⟩
+  · intro k i vi m vm h1 h2 hvi hvm
+    exact hv ((i, vi), (m, vm)) (mem_zip_iff.mpr ⟨k, h1, h2⟩) (by simp [hvi, hvm])
+  · intro b' k' hbk
+    apply hfr
+    rcases hbk with hb' | hk
+    · exact Or.inl hb'
+    · refine Or.inr ?_
+      intro x hx hax
+      obtain ⟨k, h1, h2⟩ := mem_zip_iff.mp hx
+      simp only [Bool.and_eq_true] at hax
+      exact hk k x.1.1 x.1.2 x.2.1 x.2.2 h1 h2 hax.1 hax.2
+
+/-! ### presentation lemmas: from `cellD` form to "the old cells are `x`, `y`" form -/
+
+theorem Writes.sem1 {st st' : St} {d off n sb so : Nat} {F : Val → Val}
+    (w : Writes st st' d off n (fun i => F (cellD st sb (so + i)))) (hS : Has st sb so n) :
+    st'.mheap = st.mheap ∧
+    (∀ i, i < n → ∃ x, cell st sb (so + i) = some x ∧ cell st' d (off + i) = some (F x)) ∧
+    (∀ b k, (b ≠ d ∨ k < off ∨ off + n ≤ k) → cell st' b k = cell st b k) :=
+  ⟨w.mheap, fun i hi => ⟨_, cell_some_cellD (hS i hi), w.val i hi⟩, w.frame⟩
+
+theorem Writes.sem2 {st st' : St} {d off n ab ao bb bo : Nat} {F : Val → Val → Val}
+    (w : Writes st st' d off n (fun i => F (cellD st ab (ao + i)) (cellD st bb (bo + i))))
+    (hA : Has st ab ao n) (hB : Has st bb bo n) :
+    st'.mheap = st.mheap ∧
+    (∀ i, i < n → ∃ x y, cell st ab (ao + i) = some x ∧ cell st bb (bo + i) = some y ∧
+      cell st' d (off + i) = some (F x y)) ∧
+    (∀ b k, (b ≠ d ∨ k < off ∨ off + n ≤ k) → cell st' b k = cell st b k) :=
+  ⟨w.mheap, fun i hi => ⟨_, _, cell_some_cellD (hA i hi), cell_some_cellD (hB i hi), w.val i hi⟩, w.frame⟩
+
+theorem Writes.sem3 {st st' : St} {d off n ab ao bb bo cb co : Nat} {F : Val → Val → Val → Val}
+    (w : Writes st st' d off n (fun i => F (cellD st cb (co + i)) (cellD st ab (ao + i)) (cellD st bb (bo + i))))
+    (hC : Has st cb co n) (hA : Has st ab ao n) (hB : Has st bb bo n) :
+    st'.mheap = st.mheap ∧
+    (∀ i, i < n → ∃ r x y, cell st cb (co + i) = some r ∧ cell st ab (ao + i) = some x ∧
+      cell st bb (bo + i) = some y ∧ cell st' d (off + i) = some (F r x y)) ∧
+    (∀ b k, (b ≠ d ∨ k < off ∨ off + n ≤ k) → cell st' b k = cell st b k) :=
+  ⟨w.mheap, fun i hi => ⟨_, _, _, cell_some_cellD (hC i hi), cell_some_cellD (hA i hi),
+    cell_some_cellD (hB i hi), w.val i hi⟩, w.frame⟩
+
+/-- in a duplicate-free stream an offset listed with flag `false` is not listed with flag `true` -/
+theorem nodup_fst_flag {l : ItS} (h : (l.map (·.1)).Nodup) {i i' : Int} (h1 : (i, false) ∈ l)
+    (h2 : (i', true) ∈ l) : i' ≠ i := by
+  obtain ⟨k, hk⟩ := List.mem_iff_getElem?.mp h1
+  obtain ⟨k', hk'⟩ := List.mem_iff_getElem?.mp h2
+  have hne : k' ≠ k := by
+    intro e; subst e
+    rw [hk] at hk'; cases hk'
+  exact nodup_fst_ne h hk' hk hne
+
+/-- the position `k` of a duplicate-free stream is the only one addressing its offset -/
+theorem nodup_pos_unique {l : ItS} (h : (l.map (·.1)).Nodup) {n : Nat} (hr : InRange l n) {k k' : Nat}
+    {p q : Int × Bool} (hk : l[k]? = some p) (hk' : l[k']? = some q) (off : Nat)
+    (he : off + p.1.toNat = off + q.1.toNat) : k = k' := by
+  apply Classical.byContradiction
+  intro hne
+  have := nodup_fst_ne h hk hk' hne
+  have h1 := hr p (List.mem_of_getElem? hk)
+  have h2 := hr q (List.mem_of_getElem? hk')
+  omega
+
+theorem shapeEq_self (s : Shape) : shapeEq s s = true := by
+  unfold shapeEq
+  split
+  · rfl
+  · split
+    · rename_i h; simp only [Bool.and_eq_true, beq_iff_eq] at h; omega
+    · split
+      · rename_i h; simp only [Bool.and_eq_true, beq_iff_eq] at h; omega
+      · simp
+
 end TM
